@@ -133,12 +133,13 @@ structure Mono (b b' : B) : Prop where
   edges : ∀ e, e ∈ b.edges → e ∈ b'.edges
   heapLen : b.heap.length ≤ b'.heap.length
   deref : ∀ r x, x ∈ b.deref r → x ∈ b'.deref r
+  head : ∀ x, b.head = some x → b'.head = some x
 
-theorem Mono.refl (b : B) : Mono b b := ⟨id, fun _ h => h, Nat.le_refl _, fun _ _ h => h⟩
+theorem Mono.refl (b : B) : Mono b b := ⟨id, fun _ h => h, Nat.le_refl _, fun _ _ h => h, fun _ h => h⟩
 
 theorem Mono.trans {a b c : B} (h1 : Mono a b) (h2 : Mono b c) : Mono a c :=
   ⟨fun h => h1.err (h2.err h), fun e h => h2.edges e (h1.edges e h), Nat.le_trans h1.heapLen h2.heapLen,
-   fun r x h => h2.deref r x (h1.deref r x h)⟩
+   fun r x h => h2.deref r x (h1.deref r x h), fun x h => h2.head x (h1.head x h)⟩
 
 /-- All set references held by the builder point into the heap. -/
 structure Valid (b : B) : Prop where
@@ -202,10 +203,10 @@ theorem err_fail (b : B) (msg : String) (h : (b.fail msg).err = none) : False :=
   cases hb : b.err <;> simp [hb, Option.or] at h
 
 theorem mono_fail (b : B) (msg : String) : Mono b (b.fail msg) :=
-  ⟨fun h => (err_fail b msg h).elim, fun _ h => h, Nat.le_refl _, fun _ _ h => h⟩
+  ⟨fun h => (err_fail b msg h).elim, fun _ h => h, Nat.le_refl _, fun _ _ h => h, fun _ h => h⟩
 
 theorem frame_fail (K) (b : B) (msg : String) : Frame K b (b.fail msg) :=
-  Frame.of_mono (mono_fail b msg) rfl rfl rfl rfl rfl rfl
+  Frame.of_mono (mono_fail b msg) rfl rfl rfl rfl rfl rfl (fun v => v.leaves)
 
 theorem frame_check (K) (b : B) (c : Bool) (msg : String) : Frame K b (b.check c msg) := by
   unfold check; split
@@ -213,36 +214,39 @@ theorem frame_check (K) (b : B) (c : Bool) (msg : String) : Frame K b (b.check c
   · exact Frame.refl K b
 
 /-- the trivially monotone steps -/
-theorem mono_same (b b' : B) (h1 : b'.err = b.err) (h2 : b'.edges = b.edges) (h3 : b'.heap = b.heap) : Mono b b' :=
+theorem mono_same (b b' : B) (h1 : b'.err = b.err) (h2 : b'.edges = b.edges) (h3 : b'.heap = b.heap)
+    (h4 : ∀ x, b.head = some x → b'.head = some x) : Mono b b' :=
   ⟨fun h => by rw [← h1]; exact h, fun e h => by rw [h2]; exact h, by rw [h3]; exact Nat.le_refl _,
-   fun r x h => by simpa [deref, h3] using h⟩
+   fun r x h => by simpa [deref, h3] using h, h4⟩
 
 theorem frame_connect (K) (b : B) (first : List Nat) (second : Nat) : Frame K b (b.connect first second) :=
-  Frame.of_mono ⟨id, fun e h => List.mem_append.mpr (Or.inl h), Nat.le_refl _, fun _ _ h => h⟩ rfl rfl rfl rfl rfl rfl
+  Frame.of_mono ⟨id, fun e h => List.mem_append.mpr (Or.inl h), Nat.le_refl _, fun _ _ h => h, fun _ h => h⟩ rfl rfl rfl rfl rfl rfl (fun v => v.leaves)
 
 theorem frame_setLeavesFresh (K) (b : B) (s : List Nat) : Frame K b (b.setLeavesFresh s) :=
-  Frame.of_mono ⟨id, fun _ h => h, by simp [setLeavesFresh], fun r x h => deref_setLeavesFresh b s r x h⟩ rfl rfl rfl rfl rfl rfl
+  Frame.of_mono ⟨id, fun _ h => h, by simp [setLeavesFresh], fun r x h => deref_setLeavesFresh b s r x h, fun _ h => h⟩ rfl rfl rfl rfl rfl rfl
+    (fun _ => by simp [setLeavesFresh])
 
 theorem frame_leavesUnion (K) (b : B) (s : List Nat) : Frame K b (b.leavesUnion s) :=
-  Frame.of_mono ⟨id, fun _ h => h, by simp [leavesUnion], fun r x h => deref_leavesUnion_mono b s r x h⟩ rfl rfl rfl rfl rfl rfl
+  Frame.of_mono ⟨id, fun _ h => h, by simp [leavesUnion], fun r x h => deref_leavesUnion_mono b s r x h, fun _ h => h⟩ rfl rfl rfl rfl rfl rfl
+    (fun v => by simpa [leavesUnion] using v.leaves)
 
-theorem frame_setLeavesRef (K) (b : B) (r : Nat) : Frame K b (b.setLeavesRef r) :=
-  Frame.of_mono (mono_same _ _ rfl rfl rfl) rfl rfl rfl rfl rfl rfl
+theorem frame_setLeavesRef (K) (b : B) (r : Nat) (hr : Valid b → r < b.heap.length) : Frame K b (b.setLeavesRef r) :=
+  Frame.of_mono (mono_same _ _ rfl rfl rfl (fun _ h => h)) rfl rfl rfl rfl rfl rfl hr
 
 theorem frame_pushNode (K) (b : B) (n : Nat) : Frame K b (b.pushNode n) :=
-  Frame.of_mono (mono_same _ _ rfl rfl rfl) rfl rfl rfl rfl rfl rfl
+  Frame.of_mono (mono_same _ _ rfl rfl rfl (fun x h => by simp [pushNode, h, Option.or])) rfl rfl rfl rfl rfl rfl (fun v => v.leaves)
 
 theorem frame_putFinallySections (K) (b : B) (n : Nat) (gs : List Nat) : Frame K b (b.putFinallySections n gs) :=
-  Frame.of_mono (mono_same _ _ rfl rfl rfl) rfl rfl rfl rfl rfl rfl
+  Frame.of_mono (mono_same _ _ rfl rfl rfl (fun _ h => h)) rfl rfl rfl rfl rfl rfl (fun v => v.leaves)
 
 theorem frame_delFinallySections (K) (b : B) (n : Nat) : Frame K b (b.delFinallySections n) :=
-  Frame.of_mono (mono_same _ _ rfl rfl rfl) rfl rfl rfl rfl rfl rfl
+  Frame.of_mono (mono_same _ _ rfl rfl rfl (fun _ h => h)) rfl rfl rfl rfl rfl rfl (fun v => v.leaves)
 
 theorem frame_setActive (K) (b : B) (l : List Nat) : Frame K b (b.setActive l) :=
-  Frame.of_mono (mono_same _ _ rfl rfl rfl) rfl rfl rfl rfl rfl rfl
+  Frame.of_mono (mono_same _ _ rfl rfl rfl (fun _ h => h)) rfl rfl rfl rfl rfl rfl (fun v => v.leaves)
 
 theorem frame_pushError (K) (b : B) (n : Nat) : Frame K b (b.pushError n) :=
-  Frame.of_mono (mono_same _ _ rfl rfl rfl) rfl rfl rfl rfl rfl rfl
+  Frame.of_mono (mono_same _ _ rfl rfl rfl (fun _ h => h)) rfl rfl rfl rfl rfl rfl (fun v => v.leaves)
 
 theorem frame_addNewNode (K) (b : B) (n : Nat) : Frame K b (b.addNewNode n) :=
   Frame.trans (frame_check K b _ _) (Frame.trans (frame_pushNode K _ n) (frame_connect K _ _ _))
@@ -272,42 +276,42 @@ theorem grow_clause (m : List (Nat × List Nat)) (j : Nat) (old new : List Nat) 
 /-- `putExits` at a key whose old list is contained in the new one. -/
 theorem frame_putExits_grow (K) (b : B) (j : Nat) (old new : List Nat) (hj : aget j b.exits = some old)
     (hsub : ∀ x, x ∈ old → x ∈ new) : Frame K b (b.putExits j new) :=
-  ⟨mono_same _ _ rfl rfl rfl, fun k _ l hl => grow_clause _ j old new hj hsub k l hl,
-   fun _ _ l hl => ⟨l, hl, fun _ h => h⟩, fun _ _ l hl => ⟨l, hl, fun _ h => h⟩, fun _ _ => rfl, fun _ _ => rfl, fun _ _ => rfl⟩
+  ⟨mono_same _ _ rfl rfl rfl (fun _ h => h), fun k _ l hl => grow_clause _ j old new hj hsub k l hl,
+   fun _ _ l hl => ⟨l, hl, fun _ h => h⟩, fun _ _ l hl => ⟨l, hl, fun _ h => h⟩, fun _ _ => rfl, fun _ _ => rfl, fun _ _ => rfl, fun v => ⟨v.leaves, v.condEntry⟩⟩
 
 theorem frame_putContinues_grow (K) (b : B) (j : Nat) (old new : List Nat) (hj : aget j b.continues = some old)
     (hsub : ∀ x, x ∈ old → x ∈ new) : Frame K b (b.putContinues j new) :=
-  ⟨mono_same _ _ rfl rfl rfl, fun _ _ l hl => ⟨l, hl, fun _ h => h⟩, fun k _ l hl => grow_clause _ j old new hj hsub k l hl,
-   fun _ _ l hl => ⟨l, hl, fun _ h => h⟩, fun _ _ => rfl, fun _ _ => rfl, fun _ _ => rfl⟩
+  ⟨mono_same _ _ rfl rfl rfl (fun _ h => h), fun _ _ l hl => ⟨l, hl, fun _ h => h⟩, fun k _ l hl => grow_clause _ j old new hj hsub k l hl,
+   fun _ _ l hl => ⟨l, hl, fun _ h => h⟩, fun _ _ => rfl, fun _ _ => rfl, fun _ _ => rfl, fun v => ⟨v.leaves, v.condEntry⟩⟩
 
 /-- setters at a key of `K` -/
 theorem frame_putExits (K) (b : B) (i : Nat) (l0 : List Nat) (hi : i ∈ K) : Frame K b (b.putExits i l0) := by
-  refine ⟨mono_same _ _ rfl rfl rfl, ?_, fun _ _ l hl => ⟨l, hl, fun _ h => h⟩, fun _ _ l hl => ⟨l, hl, fun _ h => h⟩, fun _ _ => rfl, fun _ _ => rfl, fun _ _ => rfl⟩
+  refine ⟨mono_same _ _ rfl rfl rfl (fun _ h => h), ?_, fun _ _ l hl => ⟨l, hl, fun _ h => h⟩, fun _ _ l hl => ⟨l, hl, fun _ h => h⟩, fun _ _ => rfl, fun _ _ => rfl, fun _ _ => rfl, fun v => ⟨v.leaves, v.condEntry⟩⟩
   intro k hk l hl
   have : k ≠ i := fun h => hk (h ▸ hi)
   exact ⟨l, by show aget k (aset i l0 b.exits) = some l; rw [aget_aset, if_neg this]; exact hl, fun _ h => h⟩
 
 theorem frame_delExits (K) (b : B) (i : Nat) (hi : i ∈ K) : Frame K b (b.delExits i) := by
-  refine ⟨mono_same _ _ rfl rfl rfl, ?_, fun _ _ l hl => ⟨l, hl, fun _ h => h⟩, fun _ _ l hl => ⟨l, hl, fun _ h => h⟩, fun _ _ => rfl, fun _ _ => rfl, fun _ _ => rfl⟩
+  refine ⟨mono_same _ _ rfl rfl rfl (fun _ h => h), ?_, fun _ _ l hl => ⟨l, hl, fun _ h => h⟩, fun _ _ l hl => ⟨l, hl, fun _ h => h⟩, fun _ _ => rfl, fun _ _ => rfl, fun _ _ => rfl, fun v => ⟨v.leaves, v.condEntry⟩⟩
   intro k hk l hl
   have : k ≠ i := fun h => hk (h ▸ hi)
   exact ⟨l, by show aget k (adel i b.exits) = some l; rw [aget_adel, if_neg this]; exact hl, fun _ h => h⟩
 
 theorem frame_putContinues (K) (b : B) (i : Nat) (l0 : List Nat) (hi : i ∈ K) : Frame K b (b.putContinues i l0) := by
-  refine ⟨mono_same _ _ rfl rfl rfl, fun _ _ l hl => ⟨l, hl, fun _ h => h⟩, ?_, fun _ _ l hl => ⟨l, hl, fun _ h => h⟩, fun _ _ => rfl, fun _ _ => rfl, fun _ _ => rfl⟩
+  refine ⟨mono_same _ _ rfl rfl rfl (fun _ h => h), fun _ _ l hl => ⟨l, hl, fun _ h => h⟩, ?_, fun _ _ l hl => ⟨l, hl, fun _ h => h⟩, fun _ _ => rfl, fun _ _ => rfl, fun _ _ => rfl, fun v => ⟨v.leaves, v.condEntry⟩⟩
   intro k hk l hl
   have : k ≠ i := fun h => hk (h ▸ hi)
   exact ⟨l, by show aget k (aset i l0 b.continues) = some l; rw [aget_aset, if_neg this]; exact hl, fun _ h => h⟩
 
 theorem frame_putSectionEntry (K) (b : B) (i e : Nat) (hi : i ∈ K) : Frame K b (b.putSectionEntry i e) := by
-  refine ⟨mono_same _ _ rfl rfl rfl, fun _ _ l hl => ⟨l, hl, fun _ h => h⟩, fun _ _ l hl => ⟨l, hl, fun _ h => h⟩, fun _ _ l hl => ⟨l, hl, fun _ h => h⟩, ?_, fun _ _ => rfl, fun _ _ => rfl⟩
+  refine ⟨mono_same _ _ rfl rfl rfl (fun _ h => h), fun _ _ l hl => ⟨l, hl, fun _ h => h⟩, fun _ _ l hl => ⟨l, hl, fun _ h => h⟩, fun _ _ l hl => ⟨l, hl, fun _ h => h⟩, ?_, fun _ _ => rfl, fun _ _ => rfl, fun v => ⟨v.leaves, v.condEntry⟩⟩
   intro k hk
   have : k ≠ i := fun h => hk (h ▸ hi)
   show aget k (aset i e b.sectionEntry) = _
   rw [aget_aset, if_neg this]
 
 theorem frame_delLoopKeys (K) (b : B) (i : Nat) (hi : i ∈ K) : Frame K b (b.delLoopKeys i) := by
-  refine ⟨mono_same _ _ rfl rfl rfl, fun _ _ l hl => ⟨l, hl, fun _ h => h⟩, ?_, fun _ _ l hl => ⟨l, hl, fun _ h => h⟩, ?_, fun _ _ => rfl, fun _ _ => rfl⟩
+  refine ⟨mono_same _ _ rfl rfl rfl (fun _ h => h), fun _ _ l hl => ⟨l, hl, fun _ h => h⟩, ?_, fun _ _ l hl => ⟨l, hl, fun _ h => h⟩, ?_, fun _ _ => rfl, fun _ _ => rfl, fun v => ⟨v.leaves, v.condEntry⟩⟩
   · intro k hk l hl
     have : k ≠ i := fun h => hk (h ▸ hi)
     exact ⟨l, by show aget k (adel i b.continues) = some l; rw [aget_adel, if_neg this]; exact hl, fun _ h => h⟩
@@ -317,21 +321,29 @@ theorem frame_delLoopKeys (K) (b : B) (i : Nat) (hi : i ∈ K) : Frame K b (b.de
     rw [aget_adel, if_neg this]
 
 theorem frame_putCondLeaves (K) (b : B) (i : Nat) (l0 : List Nat) (hi : i ∈ K) : Frame K b (b.putCondLeaves i l0) := by
-  refine ⟨mono_same _ _ rfl rfl rfl, fun _ _ l hl => ⟨l, hl, fun _ h => h⟩, fun _ _ l hl => ⟨l, hl, fun _ h => h⟩, fun _ _ l hl => ⟨l, hl, fun _ h => h⟩, fun _ _ => rfl, fun _ _ => rfl, ?_⟩
+  refine ⟨mono_same _ _ rfl rfl rfl (fun _ h => h), fun _ _ l hl => ⟨l, hl, fun _ h => h⟩, fun _ _ l hl => ⟨l, hl, fun _ h => h⟩, fun _ _ l hl => ⟨l, hl, fun _ h => h⟩, fun _ _ => rfl, fun _ _ => rfl, ?_, fun v => ⟨v.leaves, v.condEntry⟩⟩
   intro k hk
   have : k ≠ i := fun h => hk (h ▸ hi)
   show aget k (aset i l0 b.condLeaves) = _
   rw [aget_aset, if_neg this]
 
-theorem frame_putCondEntry (K) (b : B) (i r : Nat) (hi : i ∈ K) : Frame K b (b.putCondEntry i r) := by
-  refine ⟨mono_same _ _ rfl rfl rfl, fun _ _ l hl => ⟨l, hl, fun _ h => h⟩, fun _ _ l hl => ⟨l, hl, fun _ h => h⟩, fun _ _ l hl => ⟨l, hl, fun _ h => h⟩, fun _ _ => rfl, ?_, fun _ _ => rfl⟩
-  intro k hk
-  have : k ≠ i := fun h => hk (h ▸ hi)
-  show aget k (aset i r b.condEntry) = _
-  rw [aget_aset, if_neg this]
+theorem frame_putCondEntry (K) (b : B) (i r : Nat) (hi : i ∈ K) (hr : Valid b → r < b.heap.length) : Frame K b (b.putCondEntry i r) := by
+  refine ⟨mono_same _ _ rfl rfl rfl (fun _ h => h), fun _ _ l hl => ⟨l, hl, fun _ h => h⟩, fun _ _ l hl => ⟨l, hl, fun _ h => h⟩, fun _ _ l hl => ⟨l, hl, fun _ h => h⟩, fun _ _ => rfl, ?_, fun _ _ => rfl, ?_⟩
+  · intro k hk
+    have : k ≠ i := fun h => hk (h ▸ hi)
+    show aget k (aset i r b.condEntry) = _
+    rw [aget_aset, if_neg this]
+  · intro v
+    refine ⟨v.leaves, ?_⟩
+    intro k r' hk
+    have hk' : aget k (aset i r b.condEntry) = some r' := hk
+    rw [aget_aset] at hk'
+    by_cases h : k = i
+    · simp only [h, if_true, Option.some.injEq] at hk'; subst hk'; exact hr v
+    · simp only [h, if_false] at hk'; exact v.condEntry k r' hk'
 
 theorem frame_delCondKeys (K) (b : B) (i : Nat) (hi : i ∈ K) : Frame K b (b.delCondKeys i) := by
-  refine ⟨mono_same _ _ rfl rfl rfl, fun _ _ l hl => ⟨l, hl, fun _ h => h⟩, fun _ _ l hl => ⟨l, hl, fun _ h => h⟩, fun _ _ l hl => ⟨l, hl, fun _ h => h⟩, fun _ _ => rfl, ?_, ?_⟩
+  refine ⟨mono_same _ _ rfl rfl rfl (fun _ h => h), fun _ _ l hl => ⟨l, hl, fun _ h => h⟩, fun _ _ l hl => ⟨l, hl, fun _ h => h⟩, fun _ _ l hl => ⟨l, hl, fun _ h => h⟩, fun _ _ => rfl, ?_, ?_, ?_⟩
   · intro k hk
     have : k ≠ i := fun h => hk (h ▸ hi)
     show aget k (adel i b.condEntry) = _
@@ -340,6 +352,14 @@ theorem frame_delCondKeys (K) (b : B) (i : Nat) (hi : i ∈ K) : Frame K b (b.de
     have : k ≠ i := fun h => hk (h ▸ hi)
     show aget k (adel i b.condLeaves) = _
     rw [aget_adel, if_neg this]
+  · intro v
+    refine ⟨v.leaves, ?_⟩
+    intro k r' hk
+    have hk' : aget k (adel i b.condEntry) = some r' := hk
+    rw [aget_adel] at hk'
+    by_cases h : k = i
+    · simp [h] at hk'
+    · simp only [h, if_false] at hk'; exact v.condEntry k r' hk'
 
 theorem frame_addExitNode (K) (b : B) (n sec : Nat) (gs : List Nat) : Frame K b (b.addExitNode n sec gs) := by
   have h0 := frame_addJumpNode K b n gs
@@ -382,8 +402,8 @@ theorem raises_foldl_grow (node : Nat) (gs : List Nat) : ∀ (rs : List (Nat × 
     exact ⟨l2, h2, fun x hx => s2 x (s1 x hx)⟩
 
 theorem frame_connectRaiseNode (K) (b : B) (node : Nat) (gs : List Nat) : Frame K b (b.connectRaiseNode node gs) :=
-  ⟨mono_same _ _ rfl rfl rfl, fun _ _ l hl => ⟨l, hl, fun _ h => h⟩, fun _ _ l hl => ⟨l, hl, fun _ h => h⟩,
-   fun k _ l hl => raises_foldl_grow node gs b.raises k l hl, fun _ _ => rfl, fun _ _ => rfl, fun _ _ => rfl⟩
+  ⟨mono_same _ _ rfl rfl rfl (fun _ h => h), fun _ _ l hl => ⟨l, hl, fun _ h => h⟩, fun _ _ l hl => ⟨l, hl, fun _ h => h⟩,
+   fun k _ l hl => raises_foldl_grow node gs b.raises k l hl, fun _ _ => rfl, fun _ _ => rfl, fun _ _ => rfl, fun v => ⟨v.leaves, v.condEntry⟩⟩
 
 theorem frame_guardStep (K) (acc : B × List Nat) (g : Nat) : Frame K acc.1 (guardStep acc g).1 := by
   unfold guardStep
@@ -446,8 +466,9 @@ theorem frame_newCondBranch (K) (b : B) (i : Nat) (hi : i ∈ K) : Frame K b (b.
   split
   · exact frame_fail K b _
   · split
-    · exact Frame.trans (frame_putCondLeaves K b i _ hi) (frame_setLeavesRef K _ _)
-    · exact frame_putCondEntry K b i _ hi
+    · rename_i entry he
+      exact Frame.trans (frame_putCondLeaves K b i _ hi) (frame_setLeavesRef K _ _ (fun v => v.condEntry i entry he))
+    · exact frame_putCondEntry K b i _ hi (fun v => v.leaves)
 
 theorem frame_unionStep (K) (b : B) (r : Nat) : Frame K b (b.unionStep r) := frame_leavesUnion K b _
 
@@ -466,10 +487,10 @@ theorem frame_enterExceptSection (K) (b : B) (i : Nat) : Frame K b (b.enterExcep
   · exact Frame.refl K b
 
 theorem frame_enterFinallySection (K) (b : B) (i : Nat) : Frame K b (b.enterFinallySection i) :=
-  Frame.of_mono (mono_same _ _ rfl rfl rfl) rfl rfl rfl rfl rfl rfl
+  Frame.of_mono (mono_same _ _ rfl rfl rfl (fun _ h => h)) rfl rfl rfl rfl rfl rfl (fun v => v.leaves)
 
 theorem frame_closeFinally (K) (b : B) (i : Nat) (beg : Option Nat) : Frame K b (b.closeFinally i beg) :=
-  Frame.of_mono (mono_same _ _ rfl rfl rfl) rfl rfl rfl rfl rfl rfl
+  Frame.of_mono (mono_same _ _ rfl rfl rfl (fun _ h => h)) rfl rfl rfl rfl rfl rfl (fun v => v.leaves)
 
 theorem frame_exitFinallySection (K) (b : B) (i : Nat) : Frame K b (b.exitFinallySection i) := by
   unfold exitFinallySection
@@ -711,5 +732,1170 @@ theorem frame_visitHandlers : ∀ (hs : List Stmt) (σ : List Scope) (rep : Nat)
     refine Frame.trans (B.frame_newCondBranch _ _ rep hrep) ?_
     exact (frame_visitStmt h σ _ _).weaken (fun k hk' => hk k (by simp only [keysL, List.mem_append]; exact Or.inl hk'))
 end
+
+
+/-! ### positive effects of the builder steps -/
+
+/-- Every registered jump has an empty guard list (true as long as no `try … finally` is in scope). -/
+def AllNil (b : B) : Prop := ∀ n gs, aget n b.finallySections = some gs → gs = []
+
+/-- `l ⊆ leafSet`. -/
+def InLeaves (b : B) (l : List Nat) : Prop := ∀ x, x ∈ l → x ∈ b.leafSet
+
+namespace B
+
+theorem leafSet_eq_of (b b' : B) (h1 : b'.heap = b.heap) (h2 : b'.leaves = b.leaves) : b'.leafSet = b.leafSet := by
+  simp [leafSet, deref, h1, h2]
+
+@[simp] theorem leafSet_check (b : B) (c : Bool) (m : String) : (b.check c m).leafSet = b.leafSet :=
+  leafSet_eq_of _ _ (by simp) (by simp)
+@[simp] theorem leafSet_pushNode (b : B) (n : Nat) : (b.pushNode n).leafSet = b.leafSet := rfl
+@[simp] theorem leafSet_connect (b : B) (f : List Nat) (n : Nat) : (b.connect f n).leafSet = b.leafSet := rfl
+@[simp] theorem leafSet_putExits (b : B) (k : Nat) (l : List Nat) : (b.putExits k l).leafSet = b.leafSet := rfl
+@[simp] theorem leafSet_delExits (b : B) (k : Nat) : (b.delExits k).leafSet = b.leafSet := rfl
+@[simp] theorem leafSet_putContinues (b : B) (k : Nat) (l : List Nat) : (b.putContinues k l).leafSet = b.leafSet := rfl
+@[simp] theorem leafSet_putSectionEntry (b : B) (k e : Nat) : (b.putSectionEntry k e).leafSet = b.leafSet := rfl
+@[simp] theorem leafSet_delLoopKeys (b : B) (k : Nat) : (b.delLoopKeys k).leafSet = b.leafSet := rfl
+@[simp] theorem leafSet_putCondLeaves (b : B) (k : Nat) (l : List Nat) : (b.putCondLeaves k l).leafSet = b.leafSet := rfl
+@[simp] theorem leafSet_putCondEntry (b : B) (k r : Nat) : (b.putCondEntry k r).leafSet = b.leafSet := rfl
+@[simp] theorem leafSet_delCondKeys (b : B) (k : Nat) : (b.delCondKeys k).leafSet = b.leafSet := rfl
+@[simp] theorem leafSet_putFinallySections (b : B) (n : Nat) (g : List Nat) : (b.putFinallySections n g).leafSet = b.leafSet := rfl
+@[simp] theorem leafSet_delFinallySections (b : B) (n : Nat) : (b.delFinallySections n).leafSet = b.leafSet := rfl
+@[simp] theorem leafSet_setRaises (b : B) (r : List (Nat × List Nat)) : (b.setRaises r).leafSet = b.leafSet := rfl
+@[simp] theorem leafSet_setActive (b : B) (l : List Nat) : (b.setActive l).leafSet = b.leafSet := rfl
+@[simp] theorem leafSet_pushError (b : B) (n : Nat) : (b.pushError n).leafSet = b.leafSet := rfl
+@[simp] theorem leafSet_beginStatement (b : B) (i : Nat) : (b.beginStatement i).leafSet = b.leafSet := rfl
+@[simp] theorem leafSet_endStatement (b : B) (i : Nat) : (b.endStatement i).leafSet = b.leafSet :=
+  leafSet_eq_of _ _ (by simp) (by simp)
+@[simp] theorem leafSet_fail (b : B) (m : String) : (b.fail m).leafSet = b.leafSet := rfl
+
+/-- edges of `addNewNode`: the old ones plus one from every leaf. -/
+theorem edges_addNewNode (b : B) (n : Nat) : (b.addNewNode n).edges = b.edges ++ b.leafSet.map (fun x => (x, n)) := by
+  simp [addNewNode, connect]
+
+@[simp] theorem leafSet_addOrdinaryNode (b : B) (n : Nat) : (b.addOrdinaryNode n).leafSet = [n] := by
+  simp [addOrdinaryNode]
+
+theorem edges_addOrdinaryNode (b : B) (n : Nat) : (b.addOrdinaryNode n).edges = b.edges ++ b.leafSet.map (fun x => (x, n)) := by
+  simp [addOrdinaryNode, edges_addNewNode]
+
+@[simp] theorem leafSet_addJumpNode (b : B) (n : Nat) (g : List Nat) : (b.addJumpNode n g).leafSet = [] := by
+  simp [addJumpNode]
+
+theorem edges_addJumpNode (b : B) (n : Nat) (g : List Nat) : (b.addJumpNode n g).edges = b.edges ++ b.leafSet.map (fun x => (x, n)) := by
+  simp [addJumpNode, edges_addNewNode]
+
+theorem finallySections_addJumpNode (b : B) (n : Nat) (g : List Nat) : (b.addJumpNode n g).finallySections = aset n g b.finallySections := by
+  simp [addJumpNode, putFinallySections]
+
+theorem cross_sub_addOrdinaryNode (b : B) (n : Nat) (cur : List Nat) (h : InLeaves b cur) :
+    Sub (cross cur n) (b.addOrdinaryNode n).edges := by
+  intro p hp
+  rw [edges_addOrdinaryNode]
+  simp only [cross, List.mem_map] at hp
+  obtain ⟨c, hc, rfl⟩ := hp
+  exact List.mem_append.mpr (Or.inr (List.mem_map.mpr ⟨c, h c hc, rfl⟩))
+
+end B
+
+theorem allNil_of_fs_eq {b b' : B} (h : b'.finallySections = b.finallySections) (ha : AllNil b) : AllNil b' := by
+  intro n gs hn; rw [h] at hn; exact ha n gs hn
+
+theorem allNil_addOrdinaryNode {b : B} (n : Nat) (ha : AllNil b) : AllNil (b.addOrdinaryNode n) :=
+  allNil_of_fs_eq (by simp) ha
+
+theorem allNil_addOrdinaryNodes (ns : List Nat) : ∀ {b : B}, AllNil b → AllNil (addOrdinaryNodes b ns) := by
+  induction ns with
+  | nil => intro b h; exact h
+  | cons n ns ih => intro b h; exact ih (allNil_addOrdinaryNode n h)
+
+/-- Emitting ordinary nodes realises the required pairs of `emit`. -/
+theorem emit_addOrdinaryNodes (ns : List Nat) : ∀ (b : B) (cur : List Nat), InLeaves b cur →
+    Sub (emit cur ns).1 (addOrdinaryNodes b ns).edges ∧ InLeaves (addOrdinaryNodes b ns) (emit cur ns).2 := by
+  induction ns with
+  | nil => intro b cur h; exact ⟨sub_nil _, h⟩
+  | cons n ns ih =>
+    intro b cur h
+    have h1 := B.cross_sub_addOrdinaryNode b n cur h
+    have h2 := ih (b.addOrdinaryNode n) [n] (by intro x hx; simpa using hx)
+    have hf := (frame_addOrdinaryNodes [] ns (b.addOrdinaryNode n)).edges
+    simp only [emit, sub_append]
+    exact ⟨⟨fun p hp => hf p (h1 p hp), h2.1⟩, h2.2⟩
+
+
+/-! jumps -/
+
+theorem allNil_aset {b : B} (n : Nat) (ha : AllNil b) : ∀ m gs, aget m (aset n [] b.finallySections) = some gs → gs = [] := by
+  intro m gs h
+  rw [aget_aset] at h
+  by_cases hm : m = n
+  · simp only [hm, if_true, Option.some.injEq] at h; exact h.symm
+  · simp only [hm, if_false] at h; exact ha m gs h
+
+theorem allNil_addJumpNode {b : B} (n : Nat) (ha : AllNil b) : AllNil (b.addJumpNode n []) := by
+  intro m gs h
+  rw [B.finallySections_addJumpNode] at h
+  exact allNil_aset n ha m gs h
+
+/-- `add_exit_node(n, sec, [])` when the section is open. -/
+theorem addExitNode_effect (b : B) (n sec : Nat) (ex : List Nat) (hx : aget sec b.exits = some ex) (cur : List Nat)
+    (hc : InLeaves b cur) (ha : AllNil b) :
+    Sub (cross cur n) (b.addExitNode n sec []).edges ∧ (b.addExitNode n sec []).leafSet = [] ∧
+    aget sec (b.addExitNode n sec []).exits = some (ex ++ [n]) ∧ AllNil (b.addExitNode n sec []) := by
+  simp only [B.addExitNode, hx]
+  refine ⟨?_, by simp, ?_, ?_⟩
+  · intro p hp
+    show p ∈ (b.addJumpNode n []).edges
+    rw [B.edges_addJumpNode]
+    simp only [cross, List.mem_map] at hp
+    obtain ⟨c, hc', rfl⟩ := hp
+    exact List.mem_append.mpr (Or.inr (List.mem_map.mpr ⟨c, hc c hc', rfl⟩))
+  · show aget sec (aset sec (ex ++ [n]) (b.addJumpNode n []).exits) = _
+    rw [aget_aset]; simp
+  · exact allNil_of_fs_eq (b := b.addJumpNode n []) rfl (allNil_addJumpNode n ha)
+
+theorem addContinueNode_effect (b : B) (n sec : Nat) (cs : List Nat) (hx : aget sec b.continues = some cs) (cur : List Nat)
+    (hc : InLeaves b cur) (ha : AllNil b) :
+    Sub (cross cur n) (b.addContinueNode n sec []).edges ∧ (b.addContinueNode n sec []).leafSet = [] ∧
+    aget sec (b.addContinueNode n sec []).continues = some (cs ++ [n]) ∧ AllNil (b.addContinueNode n sec []) := by
+  simp only [B.addContinueNode, hx]
+  refine ⟨?_, by simp, ?_, ?_⟩
+  · intro p hp
+    show p ∈ (b.addJumpNode n []).edges
+    rw [B.edges_addJumpNode]
+    simp only [cross, List.mem_map] at hp
+    obtain ⟨c, hc', rfl⟩ := hp
+    exact List.mem_append.mpr (Or.inr (List.mem_map.mpr ⟨c, hc c hc', rfl⟩))
+  · show aget sec (aset sec (cs ++ [n]) (b.addJumpNode n []).continues) = _
+    rw [aget_aset]; simp
+  · exact allNil_of_fs_eq (b := b.addJumpNode n []) rfl (allNil_addJumpNode n ha)
+
+/-- With empty guard lists a jump is connected to nothing and stays its own cursor. -/
+theorem connectJump_allNil (b : B) (e : Nat) (ha : AllNil b) :
+    (b.connectJump e).2 = [e] ∧ ((b.connectJump e).1 = b ∨ (b.connectJump e).1 = b.delFinallySections e) := by
+  unfold B.connectJump
+  split
+  · exact ⟨rfl, Or.inl rfl⟩
+  · rename_i gs hg
+    have := ha e gs hg
+    subst this
+    exact ⟨rfl, Or.inr rfl⟩
+
+theorem allNil_delFinallySections {b : B} (e : Nat) (ha : AllNil b) : AllNil (b.delFinallySections e) := by
+  intro m gs h
+  have h' : aget m (adel e b.finallySections) = some gs := h
+  rw [aget_adel] at h'
+  by_cases hm : m = e
+  · simp [hm] at h'
+  · simp only [hm, if_false] at h'; exact ha m gs h'
+
+theorem allNil_connectJump {b : B} (e : Nat) (ha : AllNil b) : AllNil (b.connectJump e).1 := by
+  rcases (connectJump_allNil b e ha).2 with h | h <;> rw [h]
+  · exact ha
+  · exact allNil_delFinallySections e ha
+
+theorem leafSet_connectJump (b : B) (e : Nat) (ha : AllNil b) : (b.connectJump e).1.leafSet = b.leafSet := by
+  rcases (connectJump_allNil b e ha).2 with h | h <;> rw [h]
+  rfl
+
+theorem valid_connectJump (b : B) (e : Nat) (ha : AllNil b) (hv : Valid b) : Valid (b.connectJump e).1 := by
+  rcases (connectJump_allNil b e ha).2 with h | h <;> rw [h]
+  · exact hv
+  · exact ⟨hv.leaves, hv.condEntry⟩
+
+/-- `exit_section` body: every exit becomes a leaf. -/
+theorem exitFold_effect (ex : List Nat) : ∀ (b : B), AllNil b → Valid b →
+    AllNil (ex.foldl B.exitStep b) ∧ (∀ x, (x ∈ b.leafSet ∨ x ∈ ex) → x ∈ (ex.foldl B.exitStep b).leafSet) := by
+  induction ex with
+  | nil => intro b ha _; exact ⟨ha, fun x h => h.elim id (fun h => by cases h)⟩
+  | cons e ex ih =>
+    intro b ha hv
+    have hcj := connectJump_allNil b e ha
+    have ha1 : AllNil (b.exitStep e) := allNil_of_fs_eq (b := (b.connectJump e).1) rfl (allNil_connectJump e ha)
+    have hv0 := valid_connectJump b e ha hv
+    have hv1 : Valid (b.exitStep e) := (B.frame_leavesUnion [] _ _).valid hv0
+    have hl : ∀ x, (x ∈ b.leafSet ∨ x = e) → x ∈ (b.exitStep e).leafSet := by
+      intro x hx
+      show x ∈ ((b.connectJump e).1.leavesUnion (b.connectJump e).2).leafSet
+      rw [B.mem_leafSet_leavesUnion _ _ hv0.leaves, leafSet_connectJump b e ha, hcj.1]
+      simpa using hx
+    obtain ⟨ih1, ih2⟩ := ih (b.exitStep e) ha1 hv1
+    refine ⟨ih1, ?_⟩
+    intro x hx
+    simp only [List.foldl_cons]
+    apply ih2
+    rcases hx with hx | hx
+    · exact Or.inl (hl x (Or.inl hx))
+    · rcases List.mem_cons.mp hx with hx | hx
+      · exact Or.inl (hl x (Or.inr hx))
+      · exact Or.inr hx
+
+theorem exitSection_effect (b : B) (i : Nat) (ex : List Nat) (hx : aget i b.exits = some ex) (ha : AllNil b) (hv : Valid b) :
+    AllNil (b.exitSection i) ∧ (∀ x, (x ∈ b.leafSet ∨ x ∈ ex) → x ∈ (b.exitSection i).leafSet) := by
+  simp only [B.exitSection, hx]
+  obtain ⟨h1, h2⟩ := exitFold_effect ex b ha hv
+  exact ⟨allNil_of_fs_eq (b := ex.foldl B.exitStep b) rfl h1, fun x hx => by simpa using h2 x hx⟩
+
+/-- `exit_loop_section` body: every `continue` flows back to the entry. -/
+theorem reentryFold_effect (entry : Nat) (cs : List Nat) : ∀ (b : B), AllNil b →
+    AllNil (cs.foldl (B.reentryStep entry) b) ∧ Sub (cross cs entry) (cs.foldl (B.reentryStep entry) b).edges ∧
+    (cs.foldl (B.reentryStep entry) b).leafSet = b.leafSet ∧ (cs.foldl (B.reentryStep entry) b).heap = b.heap ∧
+    (cs.foldl (B.reentryStep entry) b).exits = b.exits := by
+  induction cs with
+  | nil => intro b ha; exact ⟨ha, sub_nil _, rfl, rfl, rfl⟩
+  | cons c cs ih =>
+    intro b ha
+    have hcj := connectJump_allNil b c ha
+    have ha1 : AllNil (B.reentryStep entry b c) := allNil_of_fs_eq (b := (b.connectJump c).1) rfl (allNil_connectJump c ha)
+    obtain ⟨i1, i2, i3, i4, i5⟩ := ih (B.reentryStep entry b c) ha1
+    have he1 : (B.reentryStep entry b c).exits = b.exits := by
+      show ((b.connectJump c).1.connect _ entry).exits = _
+      rcases hcj.2 with h | h <;> rw [h] <;> rfl
+    have hedge : (c, entry) ∈ (B.reentryStep entry b c).edges := by
+      show (c, entry) ∈ ((b.connectJump c).1.connect (b.connectJump c).2 entry).edges
+      rw [hcj.1]
+      simp [B.connect]
+    have hmono := (B.frame_foldl [] (B.reentryStep entry) (B.frame_reentryStep [] entry) cs (B.reentryStep entry b c)).edges
+    have hl1 : (B.reentryStep entry b c).leafSet = b.leafSet := by
+      show ((b.connectJump c).1.connect _ entry).leafSet = _
+      simp [leafSet_connectJump b c ha]
+    have hh1 : (B.reentryStep entry b c).heap = b.heap := by
+      show ((b.connectJump c).1.connect _ entry).heap = _
+      rcases hcj.2 with h | h <;> rw [h] <;> rfl
+    refine ⟨i1, ?_, by simp only [List.foldl_cons]; rw [i3, hl1], by simp only [List.foldl_cons]; rw [i4, hh1],
+      by simp only [List.foldl_cons]; rw [i5, he1]⟩
+    intro p hp
+    simp only [cross, List.map_cons, List.mem_cons] at hp
+    simp only [List.foldl_cons]
+    rcases hp with hp | hp
+    · subst hp; exact hmono _ hedge
+    · exact i2 p hp
+
+theorem exitLoopSection_effect (b : B) (i entry : Nat) (cs : List Nat) (he : aget i b.sectionEntry = some entry)
+    (hc : aget i b.continues = some cs) (ha : AllNil b) :
+    AllNil (b.exitLoopSection i) ∧ Sub (cross b.leafSet entry) (b.exitLoopSection i).edges ∧
+    Sub (cross cs entry) (b.exitLoopSection i).edges ∧ (b.exitLoopSection i).leafSet = [entry] ∧
+    (b.exitLoopSection i).exits = b.exits := by
+  simp only [B.exitLoopSection, he, hc]
+  obtain ⟨h1, h2, _, _, h5⟩ := reentryFold_effect entry cs (b.connect b.leafSet entry) (allNil_of_fs_eq (b := b) rfl ha)
+  have hmono := (B.frame_foldl [] (B.reentryStep entry) (B.frame_reentryStep [] entry) cs (b.connect b.leafSet entry)).edges
+  refine ⟨allNil_of_fs_eq (b := cs.foldl (B.reentryStep entry) (b.connect b.leafSet entry)) rfl h1, ?_, ?_, by simp,
+    by simpa using h5⟩
+  · intro p hp
+    show p ∈ (cs.foldl (B.reentryStep entry) (b.connect b.leafSet entry)).edges
+    apply hmono
+    simp only [B.connect, List.mem_append]
+    exact Or.inr hp
+  · intro p hp
+    exact h2 p hp
+
+
+/-! sections -/
+
+theorem enterSection_effect (b : B) (i : Nat) :
+    aget i (b.enterSection i).exits = some [] ∧ (b.enterSection i).leafSet = b.leafSet ∧
+    (b.enterSection i).finallySections = b.finallySections ∧ (b.enterSection i).continues = b.continues ∧
+    (b.enterSection i).condEntry = b.condEntry := by
+  refine ⟨?_, by simp [B.enterSection], by simp [B.enterSection], by simp [B.enterSection], by simp [B.enterSection]⟩
+  show aget i (aset i [] _) = _
+  rw [aget_aset]; simp
+
+theorem enterLoopSection_effect (b : B) (i h : Nat) :
+    aget i (b.enterLoopSection i h).continues = some [] ∧ aget i (b.enterLoopSection i h).sectionEntry = some h ∧
+    (b.enterLoopSection i h).exits = b.exits ∧ Sub (cross b.leafSet h) (b.enterLoopSection i h).edges ∧
+    (b.enterLoopSection i h).leafSet = [h] ∧ (b.enterLoopSection i h).finallySections = b.finallySections ∧
+    (b.enterLoopSection i h).condEntry = b.condEntry := by
+  refine ⟨?_, ?_, by simp [B.enterLoopSection], ?_, by simp [B.enterLoopSection], by simp [B.enterLoopSection], by simp [B.enterLoopSection]⟩
+  · simp only [B.enterLoopSection, B.putSectionEntry_continues, B.addOrdinaryNode_continues]
+    show aget i (aset i [] _) = _
+    rw [aget_aset]; simp
+  · show aget i (aset i h _) = _
+    rw [aget_aset]; simp
+  · intro p hp
+    simp only [B.enterLoopSection, B.putSectionEntry_edges]
+    exact B.cross_sub_addOrdinaryNode _ h b.leafSet (fun x hx => by simpa using hx) p hp
+
+/-! conditionals -/
+
+theorem enterCondSection_effect (b : B) (i : Nat) :
+    aget i (b.enterCondSection i).condLeaves = some [] ∧ (b.enterCondSection i).condEntry = b.condEntry ∧
+    (b.enterCondSection i).leafSet = b.leafSet ∧ (b.enterCondSection i).finallySections = b.finallySections ∧
+    (b.enterCondSection i).exits = b.exits ∧ (b.enterCondSection i).continues = b.continues := by
+  refine ⟨?_, by simp [B.enterCondSection], by simp [B.enterCondSection], by simp [B.enterCondSection],
+    by simp [B.enterCondSection], by simp [B.enterCondSection]⟩
+  show aget i (aset i [] _) = _
+  rw [aget_aset]; simp
+
+/-- first `new_cond_branch`: remember the split point -/
+theorem newCondBranch_first (b : B) (i : Nat) (splits : List Nat) (h1 : aget i b.condLeaves = some splits)
+    (h2 : aget i b.condEntry = none) : b.newCondBranch i = b.putCondEntry i b.leaves := by
+  simp [B.newCondBranch, h1, h2]
+
+/-- subsequent `new_cond_branch`: memorise the leaves, move back to the split point -/
+theorem newCondBranch_next (b : B) (i : Nat) (splits : List Nat) (entry : Nat) (h1 : aget i b.condLeaves = some splits)
+    (h2 : aget i b.condEntry = some entry) :
+    b.newCondBranch i = (b.putCondLeaves i (splits ++ [b.leaves])).setLeavesRef entry := by
+  simp [B.newCondBranch, h1, h2]
+
+theorem unionFold_effect (splits : List Nat) : ∀ (b : B), Valid b →
+    (∀ x, x ∈ b.leafSet → x ∈ (splits.foldl B.unionStep b).leafSet) ∧
+    (∀ r, r ∈ splits → ∀ x, x ∈ b.deref r → x ∈ (splits.foldl B.unionStep b).leafSet) ∧
+    (splits.foldl B.unionStep b).finallySections = b.finallySections := by
+  induction splits with
+  | nil => intro b _; exact ⟨fun _ h => h, fun r hr => (List.not_mem_nil hr).elim, rfl⟩
+  | cons r0 rs ih =>
+    intro b hv
+    have hv1 : Valid (b.unionStep r0) := (B.frame_unionStep [] b r0).valid hv
+    obtain ⟨i1, i2, i3⟩ := ih (b.unionStep r0) hv1
+    have hl : ∀ x, (x ∈ b.leafSet ∨ x ∈ b.deref r0) → x ∈ (b.unionStep r0).leafSet := by
+      intro x hx
+      show x ∈ (b.leavesUnion (b.deref r0)).leafSet
+      rw [B.mem_leafSet_leavesUnion _ _ hv.leaves]; exact hx
+    refine ⟨fun x hx => i1 x (hl x (Or.inl hx)), ?_, by simp only [List.foldl_cons]; rw [i3]; rfl⟩
+    intro r hr x hx
+    rcases List.mem_cons.mp hr with hr | hr
+    · subst hr; exact i1 x (hl x (Or.inr hx))
+    · exact i2 r hr x ((B.frame_unionStep [] b r0).deref r x hx)
+
+theorem exitCondSection_effect (b : B) (i : Nat) (splits : List Nat) (h1 : aget i b.condLeaves = some splits) (hv : Valid b) :
+    (∀ x, x ∈ b.leafSet → x ∈ (b.exitCondSection i).leafSet) ∧
+    (∀ r, r ∈ splits → ∀ x, x ∈ b.deref r → x ∈ (b.exitCondSection i).leafSet) ∧
+    (b.exitCondSection i).finallySections = b.finallySections := by
+  simp only [B.exitCondSection, h1]
+  obtain ⟨u1, u2, u3⟩ := unionFold_effect splits b hv
+  exact ⟨fun x hx => by simpa using u1 x hx, fun r hr x hx => by simpa using u2 r hr x hx, by simpa using u3⟩
+
+/-! ### scopes without `try` -/
+
+def Scope.isTry : Scope → Bool
+  | .try_ .. => true
+  | _ => false
+
+/-- No `try` scope is open. -/
+def NoTryScope (σ : List Scope) : Prop := ∀ sc, sc ∈ σ → sc.isTry = false
+
+theorem enclosingFinally_noTry (stop : Stop) : ∀ σ : List Scope, NoTryScope σ → (enclosingFinally stop σ).2 = [] := by
+  intro σ
+  induction σ with
+  | nil => intro _; rfl
+  | cons sc σ ih =>
+    intro h
+    have hsc : sc.isTry = false := h sc (List.mem_cons_self ..)
+    have hrest : NoTryScope σ := fun s hs => h s (List.mem_cons_of_mem _ hs)
+    simp only [enclosingFinally]
+    cases sc <;> simp [Scope.isTry] at hsc <;> (split <;> simp [ih hrest])
+
+theorem enclosingExcept_noTry (stop : Stop) : ∀ σ : List Scope, NoTryScope σ → enclosingExcept stop σ = [] := by
+  intro σ
+  induction σ with
+  | nil => intro _; rfl
+  | cons sc σ ih =>
+    intro h
+    have hsc : sc.isTry = false := h sc (List.mem_cons_self ..)
+    have hrest : NoTryScope σ := fun s hs => h s (List.mem_cons_of_mem _ hs)
+    simp only [enclosingExcept]
+    cases sc <;> simp [Scope.isTry] at hsc <;> (split <;> simp [ih hrest])
+
+/-- The target found by `_get_enclosing_finally_scopes` is the id of an open scope. -/
+theorem enclosingFinally_target_mem (stop : Stop) : ∀ (σ : List Scope) (t : Nat), (enclosingFinally stop σ).1 = some t →
+    ∃ sc, sc ∈ σ ∧ sc.id = t := by
+  intro σ
+  induction σ with
+  | nil => intro t h; simp [enclosingFinally] at h
+  | cons sc σ ih =>
+    intro t h
+    simp only [enclosingFinally] at h
+    split at h
+    · simp only [Option.some.injEq] at h
+      exact ⟨sc, List.mem_cons_self .., h⟩
+    · obtain ⟨sc', h1, h2⟩ := ih t h
+      exact ⟨sc', List.mem_cons_of_mem _ h1, h2⟩
+
+
+/-! ### the invariant of Lemma B -/
+
+def loopOf (σ : List Scope) : Option Nat := (enclosingFinally .loop σ).1
+def fnOf (σ : List Scope) : Option Nat := (enclosingFinally .fn σ).1
+
+/-- What the builder state owes to the flow summary `R` of code already visited: every required pair is an edge, and
+every pending jump is registered in the section it targets. -/
+structure Pend (σ : List Scope) (b : B) (R : Flow) : Prop where
+  req : Sub R.req b.edges
+  brk : ∀ x, x ∈ R.brk → ∃ L l, loopOf σ = some L ∧ aget L b.exits = some l ∧ x ∈ l
+  cont : ∀ x, x ∈ R.cont → ∃ L l, loopOf σ = some L ∧ aget L b.continues = some l ∧ x ∈ l
+  ret : ∀ x, x ∈ R.ret → ∃ F l, fnOf σ = some F ∧ aget F b.exits = some l ∧ x ∈ l
+  raise : ∀ x, x ∈ R.raise → ∃ F l, fnOf σ = some F ∧ aget F b.exits = some l ∧ x ∈ l
+  exempt : R.exempt = []
+
+theorem Pend.empty (σ : List Scope) (b : B) : Pend σ b {} :=
+  ⟨sub_nil _, fun _ h => (List.not_mem_nil h).elim, fun _ h => (List.not_mem_nil h).elim,
+   fun _ h => (List.not_mem_nil h).elim, fun _ h => (List.not_mem_nil h).elim, rfl⟩
+
+theorem Pend.of_req (σ : List Scope) (b : B) (l : List (Nat × Nat)) (nrm : List Nat) (h : Sub l b.edges) :
+    Pend σ b { req := l, normal := nrm } :=
+  ⟨h, fun _ h => (List.not_mem_nil h).elim, fun _ h => (List.not_mem_nil h).elim,
+   fun _ h => (List.not_mem_nil h).elim, fun _ h => (List.not_mem_nil h).elim, rfl⟩
+
+theorem Pend.transport {σ : List Scope} {K : List Nat} {b b' : B} {R : Flow} (hf : Frame K b b')
+    (hσ : ∀ sc, sc ∈ σ → sc.id ∉ K) (h : Pend σ b R) : Pend σ b' R := by
+  refine ⟨fun p hp => hf.edges p (h.req p hp), ?_, ?_, ?_, ?_, h.exempt⟩
+  · intro x hx
+    obtain ⟨L, l, hL, hl, hxl⟩ := h.brk x hx
+    obtain ⟨sc, hsc, hid⟩ := enclosingFinally_target_mem .loop σ L hL
+    obtain ⟨l', hl', hsub⟩ := hf.exits L (hid ▸ hσ sc hsc) l hl
+    exact ⟨L, l', hL, hl', hsub x hxl⟩
+  · intro x hx
+    obtain ⟨L, l, hL, hl, hxl⟩ := h.cont x hx
+    obtain ⟨sc, hsc, hid⟩ := enclosingFinally_target_mem .loop σ L hL
+    obtain ⟨l', hl', hsub⟩ := hf.continues L (hid ▸ hσ sc hsc) l hl
+    exact ⟨L, l', hL, hl', hsub x hxl⟩
+  · intro x hx
+    obtain ⟨F, l, hF, hl, hxl⟩ := h.ret x hx
+    obtain ⟨sc, hsc, hid⟩ := enclosingFinally_target_mem .fn σ F hF
+    obtain ⟨l', hl', hsub⟩ := hf.exits F (hid ▸ hσ sc hsc) l hl
+    exact ⟨F, l', hF, hl', hsub x hxl⟩
+  · intro x hx
+    obtain ⟨F, l, hF, hl, hxl⟩ := h.raise x hx
+    obtain ⟨sc, hsc, hid⟩ := enclosingFinally_target_mem .fn σ F hF
+    obtain ⟨l', hl', hsub⟩ := hf.exits F (hid ▸ hσ sc hsc) l hl
+    exact ⟨F, l', hF, hl', hsub x hxl⟩
+
+theorem Pend.seq {σ : List Scope} {b : B} {R1 R2 : Flow} (h1 : Pend σ b R1) (h2 : Pend σ b R2) : Pend σ b (R1.seq R2) := by
+  refine ⟨?_, ?_, ?_, ?_, ?_, ?_⟩
+  · simp only [Flow.seq, sub_append]; exact ⟨h1.req, h2.req⟩
+  · intro x hx; simp only [Flow.seq, List.mem_append] at hx; exact hx.elim (h1.brk x) (h2.brk x)
+  · intro x hx; simp only [Flow.seq, List.mem_append] at hx; exact hx.elim (h1.cont x) (h2.cont x)
+  · intro x hx; simp only [Flow.seq, List.mem_append] at hx; exact hx.elim (h1.ret x) (h2.ret x)
+  · intro x hx; simp only [Flow.seq, List.mem_append] at hx; exact hx.elim (h1.raise x) (h2.raise x)
+  · simp [Flow.seq, h1.exempt, h2.exempt]
+
+theorem Pend.alt {σ : List Scope} {b : B} {R1 R2 : Flow} (h1 : Pend σ b R1) (h2 : Pend σ b R2) : Pend σ b (R1.alt R2) := by
+  refine ⟨?_, ?_, ?_, ?_, ?_, ?_⟩
+  · simp only [Flow.alt, sub_append]; exact ⟨h1.req, h2.req⟩
+  · intro x hx; simp only [Flow.alt, List.mem_append] at hx; exact hx.elim (h1.brk x) (h2.brk x)
+  · intro x hx; simp only [Flow.alt, List.mem_append] at hx; exact hx.elim (h1.cont x) (h2.cont x)
+  · intro x hx; simp only [Flow.alt, List.mem_append] at hx; exact hx.elim (h1.ret x) (h2.ret x)
+  · intro x hx; simp only [Flow.alt, List.mem_append] at hx; exact hx.elim (h1.raise x) (h2.raise x)
+  · simp [Flow.alt, h1.exempt, h2.exempt]
+
+/-- What Lemma B assumes of the builder state before visiting code whose keys are `K`. -/
+structure Pre (σ : List Scope) (K : List Nat) (b : B) : Prop where
+  noTry : NoTryScope σ
+  disj : ∀ sc, sc ∈ σ → sc.id ∉ K
+  fresh : ∀ k, k ∈ K → aget k b.condEntry = none
+  loopOpen : ∀ L, loopOf σ = some L → (∃ l, aget L b.exits = some l) ∧ (∃ l, aget L b.continues = some l)
+  fnOpen : ∃ F, fnOf σ = some F ∧ ∃ l, aget F b.exits = some l
+  valid : Valid b
+  allNil : AllNil b
+
+/-- What Lemma B establishes. -/
+structure Post (σ : List Scope) (b' : B) (R : Flow) : Prop where
+  pend : Pend σ b' R
+  norm : InLeaves b' R.normal
+  allNil : AllNil b'
+
+theorem Pre.sub {σ : List Scope} {K K' : List Nat} {b : B} (h : Pre σ K b) (hs : ∀ k, k ∈ K' → k ∈ K) : Pre σ K' b :=
+  ⟨h.noTry, fun sc hsc hk => h.disj sc hsc (hs _ hk), fun k hk => h.fresh k (hs k hk), h.loopOpen, h.fnOpen, h.valid, h.allNil⟩
+
+/-- After visiting code with keys `K1` (disjoint from `K2`), the precondition for `K2` still holds. -/
+theorem Pre.step {σ : List Scope} {K1 K2 : List Nat} {b b1 : B} (h : Pre σ (K1 ++ K2) b) (hf : Frame K1 b b1)
+    (hd : ∀ k, k ∈ K2 → k ∉ K1) (ha : AllNil b1) : Pre σ K2 b1 := by
+  have hσ1 : ∀ sc, sc ∈ σ → sc.id ∉ K1 := fun sc hsc hk => h.disj sc hsc (List.mem_append.mpr (Or.inl hk))
+  refine ⟨h.noTry, fun sc hsc hk => h.disj sc hsc (List.mem_append.mpr (Or.inr hk)), ?_, ?_, ?_, hf.valid h.valid, ha⟩
+  · intro k hk
+    rw [hf.condEntry k (hd k hk)]
+    exact h.fresh k (List.mem_append.mpr (Or.inr hk))
+  · intro L hL
+    obtain ⟨sc, hsc, hid⟩ := enclosingFinally_target_mem .loop σ L hL
+    obtain ⟨⟨l1, h1⟩, ⟨l2, h2⟩⟩ := h.loopOpen L hL
+    obtain ⟨l1', h1', _⟩ := hf.exits L (hid ▸ hσ1 sc hsc) l1 h1
+    obtain ⟨l2', h2', _⟩ := hf.continues L (hid ▸ hσ1 sc hsc) l2 h2
+    exact ⟨⟨l1', h1'⟩, ⟨l2', h2'⟩⟩
+  · obtain ⟨F, hF, l, hl⟩ := h.fnOpen
+    obtain ⟨sc, hsc, hid⟩ := enclosingFinally_target_mem .fn σ F hF
+    obtain ⟨l', hl', _⟩ := hf.exits F (hid ▸ hσ1 sc hsc) l hl
+    exact ⟨F, hF, l', hl'⟩
+
+/-- Moving the precondition for keys `K2` across a step that touches only keys `K1` (disjoint from `K2` and from the
+open scopes). -/
+theorem Pre.move {σ : List Scope} {K1 K2 : List Nat} {b b1 : B} (h : Pre σ K2 b) (hf : Frame K1 b b1)
+    (hσ1 : ∀ sc, sc ∈ σ → sc.id ∉ K1) (hd : ∀ k, k ∈ K2 → k ∉ K1) (ha : AllNil b1) : Pre σ K2 b1 := by
+  refine ⟨h.noTry, h.disj, ?_, ?_, ?_, hf.valid h.valid, ha⟩
+  · intro k hk
+    rw [hf.condEntry k (hd k hk)]
+    exact h.fresh k hk
+  · intro L hL
+    obtain ⟨sc, hsc, hid⟩ := enclosingFinally_target_mem .loop σ L hL
+    obtain ⟨⟨l1, h1⟩, ⟨l2, h2⟩⟩ := h.loopOpen L hL
+    obtain ⟨l1', h1', _⟩ := hf.exits L (hid ▸ hσ1 sc hsc) l1 h1
+    obtain ⟨l2', h2', _⟩ := hf.continues L (hid ▸ hσ1 sc hsc) l2 h2
+    exact ⟨⟨l1', h1'⟩, ⟨l2', h2'⟩⟩
+  · obtain ⟨F, hF, l, hl⟩ := h.fnOpen
+    obtain ⟨sc, hsc, hid⟩ := enclosingFinally_target_mem .fn σ F hF
+    obtain ⟨l', hl', _⟩ := hf.exits F (hid ▸ hσ1 sc hsc) l hl
+    exact ⟨F, hF, l', hl'⟩
+
+theorem addOrdinaryNodes_append (b : B) (a c : List Nat) : addOrdinaryNodes b (a ++ c) = addOrdinaryNodes (addOrdinaryNodes b a) c := by
+  simp [addOrdinaryNodes, List.foldl_append]
+
+/-- Emitting `ns` as ordinary nodes and completing normally. -/
+theorem post_emit_normal (σ : List Scope) (b : B) (cur ns : List Nat) (hc : InLeaves b cur) (ha : AllNil b) :
+    Post σ (addOrdinaryNodes b ns) { req := (emit cur ns).1, normal := (emit cur ns).2 } := by
+  obtain ⟨h1, h2⟩ := emit_addOrdinaryNodes ns b cur hc
+  exact ⟨Pend.of_req σ _ _ _ h1, h2, allNil_addOrdinaryNodes ns ha⟩
+
+theorem emit_snoc (cur a : List Nat) (n : Nat) :
+    (emit cur (a ++ [n])).1 = (emit cur a).1 ++ cross (emit cur a).2 n ∧ (emit cur (a ++ [n])).2 = [n] := by
+  induction a generalizing cur with
+  | nil => simp [emit]
+  | cons x a ih =>
+    obtain ⟨i1, i2⟩ := ih [x]
+    simp only [List.cons_append, emit, i1, i2, List.append_assoc, and_self]
+
+
+/-! ### the fragment without `try` (step 1 of `C05_paths`) -/
+mutual
+/-- Statements of the modelled language that contain no `try` (nested function/class bodies are not inspected: they
+have their own graphs).  `inLoop`: a `break`/`continue` here has a target loop in this function. -/
+def frag1 (inLoop : Bool) : Stmt → Bool
+  | .try_ .. => false
+  | .handler .. => false
+  | .other .. => false
+  | .if_ _ _ body orelse => frag1L inLoop body && frag1L inLoop orelse
+  | .while_ _ _ body orelse => frag1L true body && frag1L inLoop orelse
+  | .for_ _ _ _ body orelse extra isAsync => !isAsync && extra.isEmpty && frag1L true body && frag1L inLoop orelse
+  | .with_ _ _ body isAsync => !isAsync && frag1L inLoop body
+  | .functionDef _ _ _ _ _ _ isAsync => !isAsync
+  | .break_ _ => inLoop
+  | .continue_ _ => inLoop
+  | _ => true
+def frag1L (inLoop : Bool) : List Stmt → Bool
+  | [] => true
+  | s :: ss => frag1 inLoop s && frag1L inLoop ss
+end
+
+theorem processExit_eq (σ : List Scope) (b : B) (n : Nat) (stop : Stop) (v : Bool) (t : Nat)
+    (h1 : (enclosingFinally stop σ).1 = some t) (hn : NoTryScope σ) :
+    processExit σ b n stop v = b.addExitNode n t [] := by
+  have h2 := enclosingFinally_noTry stop σ hn
+  have : enclosingFinally stop σ = (some t, []) := Prod.ext h1 h2
+  simp only [processExit, this]
+  cases v
+  · rfl
+  · simp only [if_true, enclosingExcept_noTry stop σ hn]; rfl
+
+theorem processContinue_eq (σ : List Scope) (b : B) (n : Nat) (t : Nat)
+    (h1 : (enclosingFinally .loop σ).1 = some t) (hn : NoTryScope σ) :
+    processContinue σ b n = b.addContinueNode n t [] := by
+  have h2 := enclosingFinally_noTry .loop σ hn
+  have : enclosingFinally .loop σ = (some t, []) := Prod.ext h1 h2
+  simp only [processContinue, this]
+
+/-- a jump node of a section keyed by `t`, emitted after the lambdas `lams` -/
+theorem post_exit (σ : List Scope) (b : B) (cur lams : List Nat) (n t : Nat) (ex : List Nat) (hc : InLeaves b cur)
+    (ha : AllNil b) (ht : aget t b.exits = some ex) :
+    Sub (emit cur (lams ++ [n])).1 ((addOrdinaryNodes b lams).addExitNode n t []).edges ∧
+    ((addOrdinaryNodes b lams).addExitNode n t []).leafSet = [] ∧
+    (∃ l, aget t ((addOrdinaryNodes b lams).addExitNode n t []).exits = some l ∧ n ∈ l) ∧
+    AllNil ((addOrdinaryNodes b lams).addExitNode n t []) := by
+  obtain ⟨h1, h2⟩ := emit_addOrdinaryNodes lams b cur hc
+  have hf := frame_addOrdinaryNodes [] lams b
+  obtain ⟨ex1, hex1, _⟩ := hf.exits t (by simp) ex ht
+  obtain ⟨e1, e2, e3, e4⟩ := addExitNode_effect (addOrdinaryNodes b lams) n t ex1 hex1 _ h2 (allNil_addOrdinaryNodes lams ha)
+  refine ⟨?_, e2, ⟨_, e3, by simp⟩, e4⟩
+  rw [(emit_snoc cur lams n).1, sub_append]
+  exact ⟨fun p hp => (B.frame_addExitNode [] _ n t []).edges p (h1 p hp), e1⟩
+
+
+theorem addOrdinaryNodes_snoc (b : B) (ns : List Nat) (n : Nat) :
+    addOrdinaryNodes b (ns ++ [n]) = (addOrdinaryNodes b ns).addOrdinaryNode n := by
+  simp [addOrdinaryNodes, List.foldl_append]
+
+theorem basicExprs_eq (σ : List Scope) : ∀ (items : List Expr) (b : B) (a : Acc),
+    (basicExprs σ items b a).1 = addOrdinaryNodes b (withItemNodes items)
+  | [], b, a => rfl
+  | e :: es, b, a => by
+    simp only [basicExprs, withItemNodes, basicExpr]
+    rw [basicExprs_eq σ es]
+    have : e.kidLams ++ e.id :: withItemNodes es = (e.kidLams ++ [e.id]) ++ withItemNodes es := by simp
+    rw [this, addOrdinaryNodes_append, addOrdinaryNodes_snoc]
+
+
+theorem deref_eq_of_heap {b b' : B} (h : b'.heap = b.heap) (r : Nat) : b'.deref r = b.deref r := by
+  simp [B.deref, h]
+
+/-- The `if` statement, given Lemma B for its two blocks. -/
+theorem lemB_if (σ : List Scope) (i : Nat) (test : Expr) (body orelse : List Stmt) (b : B) (a a1 a2 : Acc) (cur : List Nat)
+    (hnd : (i :: (keysL body ++ keysL orelse)).Nodup)
+    (hp : Pre σ (i :: (keysL body ++ keysL orelse)) b) (hc : InLeaves b cur)
+    (hbody : ∀ (b : B) (a : Acc) (cur : List Nat), Pre σ (keysL body) b → InLeaves b cur →
+      Post σ (visitStmts σ body b a).1 (flowBlock body cur))
+    (horelse : ∀ (b : B) (a : Acc) (cur : List Nat), Pre σ (keysL orelse) b → InLeaves b cur →
+      Post σ (visitStmts σ orelse b a).1 (flowBlock orelse cur)) :
+    Post σ
+      ((((visitStmts σ orelse
+          ((visitStmts σ body ((basicExpr σ test ((b.beginStatement i).enterCondSection i) a).1.newCondBranch i) a1).1.newCondBranch i)
+          a2).1).exitCondSection i).endStatement i)
+      (flowStmt (.if_ i test body orelse) cur) := by
+  -- keys
+  obtain ⟨hi_all, hnd2⟩ := List.nodup_cons.mp hnd
+  obtain ⟨ndb, ndo, dbo⟩ := List.nodup_append.mp hnd2
+  have hi_b : i ∉ keysL body := fun h => hi_all (List.mem_append.mpr (Or.inl h))
+  have hi_o : i ∉ keysL orelse := fun h => hi_all (List.mem_append.mpr (Or.inr h))
+  have hσi : ∀ sc, sc ∈ σ → sc.id ∉ [i] := fun sc hsc h => hp.disj sc hsc (by simp only [List.mem_singleton] at h; rw [h]; exact List.mem_cons_self ..)
+  have hσb : ∀ sc, sc ∈ σ → sc.id ∉ i :: keysL body := fun sc hsc h => hp.disj sc hsc (by
+    rcases List.mem_cons.mp h with h | h
+    · rw [h]; exact List.mem_cons_self ..
+    · exact List.mem_cons_of_mem _ (List.mem_append.mpr (Or.inl h)))
+  -- states
+  let b1 := (b.beginStatement i).enterCondSection i
+  let bt := (basicExpr σ test b1 a).1
+  have hbt : bt = addOrdinaryNodes b1 (test.kidLams ++ [test.id]) := by
+    show (addOrdinaryNodes b1 test.kidLams).addOrdinaryNode test.id = _
+    rw [addOrdinaryNodes_snoc]
+  obtain ⟨c1, c2, c3, c4, _, _⟩ := enterCondSection_effect (b.beginStatement i) i
+  have hc1 : InLeaves b1 cur := fun x hx => by rw [show b1.leafSet = b.leafSet from c3]; exact hc x hx
+  have ha1 : AllNil b1 := allNil_of_fs_eq (b := b) c4 hp.allNil
+  obtain ⟨e1, e2⟩ := emit_addOrdinaryNodes (test.kidLams ++ [test.id]) b1 cur hc1
+  rw [← hbt] at e1 e2
+  have hat : AllNil bt := by rw [hbt]; exact allNil_addOrdinaryNodes _ ha1
+  have ft : Frame [] b1 bt := frame_basicExpr [] σ test b1 a
+  have hcl_t : aget i bt.condLeaves = some [] := by rw [ft.condLeaves i (by simp)]; exact c1
+  have hce_t : aget i bt.condEntry = none := by
+    rw [ft.condEntry i (by simp)]
+    show aget i ((b.beginStatement i).enterCondSection i).condEntry = none
+    rw [c2]; exact hp.fresh i (List.mem_cons_self ..)
+  let b2 := bt.newCondBranch i
+  have hb2 : b2 = bt.putCondEntry i bt.leaves := newCondBranch_first bt i [] hcl_t hce_t
+  have hl2 : b2.leafSet = bt.leafSet := by rw [hb2]; rfl
+  have hce2 : aget i b2.condEntry = some bt.leaves := by rw [hb2]; show aget i (aset i _ _) = _; rw [aget_aset]; simp
+  have hcl2 : aget i b2.condLeaves = some [] := by rw [hb2]; exact hcl_t
+  have ha2 : AllNil b2 := allNil_of_fs_eq (b := bt) (by rw [hb2]; rfl) hat
+  have f02 : Frame [i] b b2 :=
+    Frame.trans (Frame.trans (Frame.trans (B.frame_beginStatement _ b i) (B.frame_enterCondSection _ _ i (by simp)))
+      (frame_basicExpr _ σ test _ a)) (B.frame_newCondBranch _ _ i (by simp))
+  have pre2 : Pre σ (keysL body) b2 :=
+    (hp.sub (fun k hk => List.mem_cons_of_mem _ (List.mem_append.mpr (Or.inl hk)))).move f02 hσi
+      (fun k hk h => hi_b (by simp only [List.mem_singleton] at h; rw [← h]; exact hk)) ha2
+  have hc2 : InLeaves b2 (emit cur (test.kidLams ++ [test.id])).2 := fun x hx => by rw [hl2]; exact e2 x hx
+  have IHb := hbody b2 a1 _ pre2 hc2
+  let b3 := (visitStmts σ body b2 a1).1
+  have fb : Frame (keysL body) b2 b3 := frame_visitStmts body σ b2 a1
+  have hce3 : aget i b3.condEntry = some bt.leaves := by rw [fb.condEntry i hi_b]; exact hce2
+  have hcl3 : aget i b3.condLeaves = some [] := by rw [fb.condLeaves i hi_b]; exact hcl2
+  have hd3 : ∀ x, x ∈ (emit cur (test.kidLams ++ [test.id])).2 → x ∈ b3.deref bt.leaves := by
+    intro x hx
+    apply fb.deref
+    rw [deref_eq_of_heap (b := bt) (by rw [hb2]; rfl)]
+    exact e2 x hx
+  let b4 := b3.newCondBranch i
+  have hb4 : b4 = (b3.putCondLeaves i ([] ++ [b3.leaves])).setLeavesRef bt.leaves := newCondBranch_next b3 i [] _ hcl3 hce3
+  have hl4 : b4.leafSet = b3.deref bt.leaves := by rw [hb4]; rfl
+  have hcl4 : aget i b4.condLeaves = some [b3.leaves] := by
+    rw [hb4]; show aget i (aset i _ _) = _; rw [aget_aset]; simp
+  have ha4 : AllNil b4 := allNil_of_fs_eq (b := b3) (by rw [hb4]; rfl) IHb.allNil
+  have f34 : Frame [i] b3 b4 := B.frame_newCondBranch _ _ i (by simp)
+  have f04 : Frame (i :: keysL body) b b4 :=
+    Frame.trans (Frame.trans (f02.weaken (fun k hk => by simp only [List.mem_singleton] at hk; rw [hk]; exact List.mem_cons_self ..))
+      (fb.weaken (fun k hk => List.mem_cons_of_mem _ hk)))
+      (f34.weaken (fun k hk => by simp only [List.mem_singleton] at hk; rw [hk]; exact List.mem_cons_self ..))
+  have pre4 : Pre σ (keysL orelse) b4 :=
+    (hp.sub (fun k hk => List.mem_cons_of_mem _ (List.mem_append.mpr (Or.inr hk)))).move f04 hσb
+      (fun k hk h => by
+        rcases List.mem_cons.mp h with h | h
+        · exact hi_o (h ▸ hk)
+        · exact dbo k h k hk rfl) ha4
+  have hc4 : InLeaves b4 (emit cur (test.kidLams ++ [test.id])).2 := fun x hx => by rw [hl4]; exact hd3 x hx
+  have IHo := horelse b4 a2 _ pre4 hc4
+  let b5 := (visitStmts σ orelse b4 a2).1
+  have fo : Frame (keysL orelse) b4 b5 := frame_visitStmts orelse σ b4 a2
+  have hcl5 : aget i b5.condLeaves = some [b3.leaves] := by rw [fo.condLeaves i hi_o]; exact hcl4
+  have hd5 : ∀ x, x ∈ (flowBlock body (emit cur (test.kidLams ++ [test.id])).2).normal → x ∈ b5.deref b3.leaves := by
+    intro x hx
+    apply fo.deref
+    rw [deref_eq_of_heap (b := b3) (by rw [hb4]; rfl)]
+    exact IHb.norm x hx
+  have hv5 : Valid b5 := fo.valid pre4.valid
+  obtain ⟨x1, x2, x3⟩ := exitCondSection_effect b5 i [b3.leaves] hcl5 hv5
+  -- frames to the final state, all at the statement's key set
+  have f57 : Frame (i :: (keysL body ++ keysL orelse)) b5 ((b5.exitCondSection i).endStatement i) :=
+    Frame.trans (B.frame_exitCondSection _ b5 i (List.mem_cons_self ..)) (B.frame_endStatement _ _ i)
+  have f37 : Frame (i :: (keysL body ++ keysL orelse)) b3 ((b5.exitCondSection i).endStatement i) :=
+    Frame.trans (Frame.trans (f34.weaken (fun k hk => by simp only [List.mem_singleton] at hk; rw [hk]; exact List.mem_cons_self ..))
+      (fo.weaken (fun k hk => List.mem_cons_of_mem _ (List.mem_append.mpr (Or.inr hk))))) f57
+  have ft7 : Frame (i :: (keysL body ++ keysL orelse)) bt ((b5.exitCondSection i).endStatement i) :=
+    Frame.trans (Frame.trans (B.frame_newCondBranch _ bt i (List.mem_cons_self ..))
+      (fb.weaken (fun k hk => List.mem_cons_of_mem _ (List.mem_append.mpr (Or.inl hk))))) f37
+  simp only [flowStmt]
+  refine ⟨Pend.seq ((Pend.of_req σ bt _ [] e1).transport ft7 hp.disj)
+      (Pend.alt (IHb.pend.transport f37 hp.disj) (IHo.pend.transport f57 hp.disj)), ?_, ?_⟩
+  · intro x hx
+    simp only [Flow.seq, Flow.alt, List.mem_append] at hx
+    show x ∈ ((b5.exitCondSection i).endStatement i).leafSet
+    rw [B.leafSet_endStatement]
+    rcases hx with hx | hx
+    · exact x2 _ (by simp) x (hd5 x hx)
+    · exact x1 x (IHo.norm x hx)
+  · exact allNil_of_fs_eq (b := b5) (by rw [B.endStatement_finallySections]; exact x3) IHo.allNil
+
+
+theorem loopOf_loop (i : Nat) (σ : List Scope) : loopOf (Scope.loop i :: σ) = some i := rfl
+theorem fnOf_loop (i : Nat) (σ : List Scope) : fnOf (Scope.loop i :: σ) = fnOf σ := rfl
+
+theorem noTryScope_loop {σ : List Scope} (i : Nat) (h : NoTryScope σ) : NoTryScope (Scope.loop i :: σ) := by
+  intro sc hsc
+  rcases List.mem_cons.mp hsc with hsc | hsc
+  · subst hsc; rfl
+  · exact h sc hsc
+
+theorem sub_cross_of {cur cur' : List Nat} {n : Nat} {E : List (Nat × Nat)} (h : Sub (cross cur' n) E)
+    (hs : ∀ x, x ∈ cur → x ∈ cur') : Sub (cross cur n) E := by
+  intro p hp
+  simp only [cross, List.mem_map] at hp
+  obtain ⟨c, hc, rfl⟩ := hp
+  exact h _ (List.mem_map.mpr ⟨c, hs c hc, rfl⟩)
+
+/-- A `while`/`for` loop with header node `h` (preceded by the lambdas `lams`), given Lemma B for its two blocks. -/
+theorem lemB_loop (σ : List Scope) (i h : Nat) (lams : List Nat) (body orelse : List Stmt) (b : B) (a1 a2 : Acc) (cur : List Nat)
+    (hnd : (i :: (keysL body ++ keysL orelse)).Nodup)
+    (hp : Pre σ (i :: (keysL body ++ keysL orelse)) b) (hc : InLeaves b cur)
+    (hbody : ∀ (b : B) (a : Acc) (cur : List Nat), Pre (Scope.loop i :: σ) (keysL body) b → InLeaves b cur →
+      Post (Scope.loop i :: σ) (visitStmts (Scope.loop i :: σ) body b a).1 (flowBlock body cur))
+    (horelse : ∀ (b : B) (a : Acc) (cur : List Nat), Pre σ (keysL orelse) b → InLeaves b cur →
+      Post σ (visitStmts σ orelse b a).1 (flowBlock orelse cur)) :
+    Post σ
+      ((((visitStmts σ orelse
+          ((visitStmts (Scope.loop i :: σ) body
+            ((addOrdinaryNodes ((b.beginStatement i).enterSection i) lams).enterLoopSection i h) a1).1.exitLoopSection i)
+          a2).1).exitSection i).endStatement i)
+      (Flow.seq { req := (emit cur lams).1 ++ cross (emit cur lams).2 h } (loopFlow h [] body orelse)) := by
+  -- keys
+  obtain ⟨hi_all, hnd2⟩ := List.nodup_cons.mp hnd
+  obtain ⟨ndb, ndo, dbo⟩ := List.nodup_append.mp hnd2
+  have hi_b : i ∉ keysL body := fun h => hi_all (List.mem_append.mpr (Or.inl h))
+  have hi_o : i ∉ keysL orelse := fun h => hi_all (List.mem_append.mpr (Or.inr h))
+  have hσK := hp.disj
+  have hσi : ∀ sc, sc ∈ σ → sc.id ≠ i := fun sc hsc h => hp.disj sc hsc (h ▸ List.mem_cons_self ..)
+  have hσb : ∀ sc, sc ∈ σ → sc.id ∉ i :: keysL body := fun sc hsc h => hp.disj sc hsc (by
+    rcases List.mem_cons.mp h with h | h
+    · rw [h]; exact List.mem_cons_self ..
+    · exact List.mem_cons_of_mem _ (List.mem_append.mpr (Or.inl h)))
+  have kI : ∀ k, k ∈ [i] → k ∈ i :: (keysL body ++ keysL orelse) := fun k hk => by
+    simp only [List.mem_singleton] at hk; rw [hk]; exact List.mem_cons_self ..
+  have kB : ∀ k, k ∈ keysL body → k ∈ i :: (keysL body ++ keysL orelse) :=
+    fun k hk => List.mem_cons_of_mem _ (List.mem_append.mpr (Or.inl hk))
+  have kO : ∀ k, k ∈ keysL orelse → k ∈ i :: (keysL body ++ keysL orelse) :=
+    fun k hk => List.mem_cons_of_mem _ (List.mem_append.mpr (Or.inr hk))
+  -- states up to the loop entry
+  let b1 := (b.beginStatement i).enterSection i
+  obtain ⟨s1, s2, s3, s4, s5⟩ := enterSection_effect (b.beginStatement i) i
+  have hc1 : InLeaves b1 cur := fun x hx => by rw [show b1.leafSet = b.leafSet from s2]; exact hc x hx
+  have ha1 : AllNil b1 := allNil_of_fs_eq (b := b) s3 hp.allNil
+  let b2 := addOrdinaryNodes b1 lams
+  obtain ⟨e1, e2⟩ := emit_addOrdinaryNodes lams b1 cur hc1
+  have ha2 : AllNil b2 := allNil_addOrdinaryNodes lams ha1
+  have f12 : Frame [] b1 b2 := frame_addOrdinaryNodes [] lams b1
+  obtain ⟨ex2, hex2, _⟩ := f12.exits i (by simp) [] s1
+  let b3 := b2.enterLoopSection i h
+  obtain ⟨l1, l2, l3, l4, l5, l6, l7⟩ := enterLoopSection_effect b2 i h
+  have ha3 : AllNil b3 := allNil_of_fs_eq (b := b2) l6 ha2
+  have f03 : Frame (i :: (keysL body ++ keysL orelse)) b b3 :=
+    Frame.trans (Frame.trans (Frame.trans (B.frame_beginStatement _ b i) (B.frame_enterSection _ _ i (List.mem_cons_self ..)))
+      (frame_addOrdinaryNodes _ lams _)) (B.frame_enterLoopSection _ _ i h (List.mem_cons_self ..))
+  have f03' : Frame [i] b b3 :=
+    Frame.trans (Frame.trans (Frame.trans (B.frame_beginStatement _ b i) (B.frame_enterSection _ _ i (by simp)))
+      (frame_addOrdinaryNodes _ lams _)) (B.frame_enterLoopSection _ _ i h (by simp))
+  have hex3 : aget i b3.exits = some ex2 := by rw [show b3.exits = b2.exits from l3]; exact hex2
+  have pre3 : Pre (Scope.loop i :: σ) (keysL body) b3 := by
+    refine ⟨noTryScope_loop i hp.noTry, ?_, ?_, ?_, ?_, f03.valid hp.valid, ha3⟩
+    · intro sc hsc
+      rcases List.mem_cons.mp hsc with hsc | hsc
+      · subst hsc; exact hi_b
+      · exact fun hk => hp.disj sc hsc (kB _ hk)
+    · intro k hk
+      have hki : k ∉ [i] := fun h => hi_b (by simp only [List.mem_singleton] at h; rw [← h]; exact hk)
+      rw [f03'.condEntry k hki]
+      exact hp.fresh k (kB k hk)
+    · intro L hL
+      rw [loopOf_loop] at hL
+      cases hL
+      exact ⟨⟨_, hex3⟩, ⟨_, l1⟩⟩
+    · obtain ⟨F, hF, l, hl⟩ := hp.fnOpen
+      obtain ⟨sc, hsc, hid⟩ := enclosingFinally_target_mem .fn σ F hF
+      obtain ⟨l', hl', _⟩ := f03'.exits F (by simp only [List.mem_singleton]; exact hid ▸ hσi sc hsc) l hl
+      exact ⟨F, by rw [fnOf_loop]; exact hF, l', hl'⟩
+  have hc3 : InLeaves b3 [h] := fun x hx => by rw [show b3.leafSet = [h] from l5]; exact hx
+  have IHb := hbody b3 a1 [h] pre3 hc3
+  let b4 := (visitStmts (Scope.loop i :: σ) body b3 a1).1
+  have fb : Frame (keysL body) b3 b4 := frame_visitStmts body _ b3 a1
+  have hse4 : aget i b4.sectionEntry = some h := by rw [fb.sectionEntry i hi_b]; exact l2
+  obtain ⟨cs4, hcs4, _⟩ := fb.continues i hi_b [] l1
+  obtain ⟨ex4, hex4, _⟩ := fb.exits i hi_b ex2 hex3
+  have hcont4 : ∀ x, x ∈ (flowBlock body [h]).cont → x ∈ cs4 := by
+    intro x hx
+    obtain ⟨L, l, hL, hl, hxl⟩ := IHb.pend.cont x hx
+    rw [loopOf_loop] at hL; cases hL
+    rw [hcs4] at hl; cases hl; exact hxl
+  have hbrk4 : ∀ x, x ∈ (flowBlock body [h]).brk → x ∈ ex4 := by
+    intro x hx
+    obtain ⟨L, l, hL, hl, hxl⟩ := IHb.pend.brk x hx
+    rw [loopOf_loop] at hL; cases hL
+    rw [hex4] at hl; cases hl; exact hxl
+  obtain ⟨x1, x2, x3, x4, x5⟩ := exitLoopSection_effect b4 i h cs4 hse4 hcs4 IHb.allNil
+  let b5 := b4.exitLoopSection i
+  have f45 : Frame [i] b4 b5 := B.frame_exitLoopSection _ b4 i (by simp)
+  have f05 : Frame (i :: keysL body) b b5 :=
+    Frame.trans (Frame.trans (f03'.weaken (fun k hk => by simp only [List.mem_singleton] at hk; rw [hk]; exact List.mem_cons_self ..))
+      (fb.weaken (fun k hk => List.mem_cons_of_mem _ hk)))
+      (f45.weaken (fun k hk => by simp only [List.mem_singleton] at hk; rw [hk]; exact List.mem_cons_self ..))
+  have pre5 : Pre σ (keysL orelse) b5 :=
+    (hp.sub kO).move f05 hσb
+      (fun k hk h => by
+        rcases List.mem_cons.mp h with h | h
+        · exact hi_o (h ▸ hk)
+        · exact dbo k h k hk rfl) x1
+  have hc5 : InLeaves b5 [h] := fun x hx => by rw [show b5.leafSet = [h] from x4]; exact hx
+  have IHo := horelse b5 a2 [h] pre5 hc5
+  let b6 := (visitStmts σ orelse b5 a2).1
+  have fo : Frame (keysL orelse) b5 b6 := frame_visitStmts orelse σ b5 a2
+  have hex5 : aget i b5.exits = some ex4 := by rw [show b5.exits = b4.exits from x5]; exact hex4
+  obtain ⟨ex6, hex6, hsub6⟩ := fo.exits i hi_o ex4 hex5
+  have hv6 : Valid b6 := fo.valid pre5.valid
+  obtain ⟨y1, y2⟩ := exitSection_effect b6 i ex6 hex6 IHo.allNil hv6
+  -- frames to the final state
+  have f68 : Frame (i :: (keysL body ++ keysL orelse)) b6 ((b6.exitSection i).endStatement i) :=
+    Frame.trans (B.frame_exitSection _ b6 i (List.mem_cons_self ..)) (B.frame_endStatement _ _ i)
+  have f58 : Frame (i :: (keysL body ++ keysL orelse)) b5 ((b6.exitSection i).endStatement i) :=
+    Frame.trans (fo.weaken kO) f68
+  have f48 : Frame (i :: (keysL body ++ keysL orelse)) b4 ((b6.exitSection i).endStatement i) :=
+    Frame.trans (f45.weaken kI) f58
+  have f38 : Frame (i :: (keysL body ++ keysL orelse)) b3 ((b6.exitSection i).endStatement i) :=
+    Frame.trans (fb.weaken kB) f48
+  have f28 : Frame (i :: (keysL body ++ keysL orelse)) b2 ((b6.exitSection i).endStatement i) :=
+    Frame.trans (B.frame_enterLoopSection _ b2 i h (List.mem_cons_self ..)) f38
+  have Po := IHo.pend.transport f68 hp.disj
+  -- the body's pending returns/raises, read in the outer scope list
+  have retB : ∀ x, x ∈ (flowBlock body [h]).ret → ∃ F l, fnOf σ = some F ∧
+      aget F ((b6.exitSection i).endStatement i).exits = some l ∧ x ∈ l := by
+    intro x hx
+    obtain ⟨F, l, hF, hl, hxl⟩ := IHb.pend.ret x hx
+    rw [fnOf_loop] at hF
+    obtain ⟨sc, hsc, hid⟩ := enclosingFinally_target_mem .fn σ F hF
+    obtain ⟨l', hl', hs'⟩ := f48.exits F (hid ▸ hp.disj sc hsc) l hl
+    exact ⟨F, l', hF, hl', hs' x hxl⟩
+  have raiseB : ∀ x, x ∈ (flowBlock body [h]).raise → ∃ F l, fnOf σ = some F ∧
+      aget F ((b6.exitSection i).endStatement i).exits = some l ∧ x ∈ l := by
+    intro x hx
+    obtain ⟨F, l, hF, hl, hxl⟩ := IHb.pend.raise x hx
+    rw [fnOf_loop] at hF
+    obtain ⟨sc, hsc, hid⟩ := enclosingFinally_target_mem .fn σ F hF
+    obtain ⟨l', hl', hs'⟩ := f48.exits F (hid ▸ hp.disj sc hsc) l hl
+    exact ⟨F, l', hF, hl', hs' x hxl⟩
+  refine ⟨⟨?_, ?_, ?_, ?_, ?_, ?_⟩, ?_, ?_⟩
+  · -- required pairs
+    simp only [Flow.seq, loopFlow, emit, List.nil_append, sub_append]
+    refine ⟨⟨fun p hp' => f28.edges p (e1 p hp'), ?_⟩, fun p hp' => f48.edges p (IHb.pend.req p hp'), ?_, ?_, Po.req⟩
+    · exact fun p hp' => f38.edges p (sub_cross_of l4 e2 p hp')
+    · exact fun p hp' => f58.edges p (sub_cross_of x2 IHb.norm p hp')
+    · exact fun p hp' => f58.edges p (sub_cross_of x3 hcont4 p hp')
+  · intro x hx
+    simp only [Flow.seq, loopFlow, List.nil_append] at hx
+    exact Po.brk x hx
+  · intro x hx
+    simp only [Flow.seq, loopFlow, List.nil_append] at hx
+    exact Po.cont x hx
+  · intro x hx
+    simp only [Flow.seq, loopFlow, List.nil_append, List.mem_append] at hx
+    exact hx.elim (retB x) (Po.ret x)
+  · intro x hx
+    simp only [Flow.seq, loopFlow, List.nil_append, List.mem_append] at hx
+    exact hx.elim (raiseB x) (Po.raise x)
+  · have hbe : (flowBlock body (emit [h] []).2).exempt = [] := IHb.pend.exempt
+    simp [Flow.seq, loopFlow, hbe, IHo.pend.exempt]
+  · intro x hx
+    simp only [Flow.seq, loopFlow, List.mem_append] at hx
+    show x ∈ ((b6.exitSection i).endStatement i).leafSet
+    rw [B.leafSet_endStatement]
+    rcases hx with hx | hx
+    · exact y2 x (Or.inl (IHo.norm x hx))
+    · exact y2 x (Or.inr (hsub6 x (hbrk4 x hx)))
+  · exact allNil_of_fs_eq (b := b6.exitSection i) (B.endStatement_finallySections _ _) y1
+
+mutual
+theorem lemB_stmt : ∀ (s : Stmt) (σ : List Scope) (b : B) (a : Acc) (inLoop : Bool) (cur : List Nat),
+    frag1 inLoop s = true → (inLoop = true → ∃ L, loopOf σ = some L) → (stmtKeys' s).Nodup →
+    Pre σ (stmtKeys' s) b → InLeaves b cur → Post σ (visitStmt σ s b a).1 (flowStmt s cur)
+  | .ret i v, σ, b, a, inLoop, cur, _, _, _, hp, hc => by
+    obtain ⟨F, hF, l, hl⟩ := hp.fnOpen
+    simp only [visitStmt, flowStmt]
+    rw [processExit_eq σ _ i .fn false F hF hp.noTry]
+    obtain ⟨e1, e2, ⟨l', e3, e3'⟩, e4⟩ := post_exit σ b cur (lamsL v) i F l hc hp.allNil hl
+    refine ⟨⟨e1, fun _ h => (List.not_mem_nil h).elim, fun _ h => (List.not_mem_nil h).elim, ?_,
+      fun _ h => (List.not_mem_nil h).elim, rfl⟩, fun _ h => (List.not_mem_nil h).elim, e4⟩
+    intro x hx
+    rw [(emit_snoc cur (lamsL v) i).2] at hx
+    simp only [List.mem_singleton] at hx
+    subst hx
+    exact ⟨F, l', hF, e3, e3'⟩
+  | .raise i e c, σ, b, a, inLoop, cur, _, _, _, hp, hc => by
+    obtain ⟨F, hF, l, hl⟩ := hp.fnOpen
+    simp only [visitStmt, flowStmt]
+    rw [processExit_eq σ _ i .fn true F hF hp.noTry]
+    have hlam : lamsL e ++ (lamsL c ++ [i]) = (lamsL e ++ lamsL c) ++ [i] := by simp
+    rw [hlam]
+    obtain ⟨e1, e2, ⟨l', e3, e3'⟩, e4⟩ := post_exit σ b cur (lamsL e ++ lamsL c) i F l hc hp.allNil hl
+    refine ⟨⟨e1, fun _ h => (List.not_mem_nil h).elim, fun _ h => (List.not_mem_nil h).elim,
+      fun _ h => (List.not_mem_nil h).elim, ?_, rfl⟩, fun _ h => (List.not_mem_nil h).elim, allNil_of_fs_eq (by simp) e4⟩
+    intro x hx
+    rw [(emit_snoc cur (lamsL e ++ lamsL c) i).2] at hx
+    simp only [List.mem_singleton] at hx
+    subst hx
+    exact ⟨F, l', hF, by simpa using e3, e3'⟩
+  | .break_ i, σ, b, a, inLoop, cur, hfr, hlp, _, hp, hc => by
+    simp only [frag1] at hfr
+    obtain ⟨L, hL⟩ := hlp hfr
+    obtain ⟨⟨l, hl⟩, _⟩ := hp.loopOpen L hL
+    simp only [visitStmt, flowStmt]
+    rw [processExit_eq σ _ i .loop false L hL hp.noTry]
+    obtain ⟨e1, e2, ⟨l', e3, e3'⟩, e4⟩ := post_exit σ b cur [] i L l hc hp.allNil hl
+    refine ⟨⟨e1, ?_, fun _ h => (List.not_mem_nil h).elim, fun _ h => (List.not_mem_nil h).elim,
+      fun _ h => (List.not_mem_nil h).elim, rfl⟩, fun _ h => (List.not_mem_nil h).elim, e4⟩
+    intro x hx
+    simp only [emit, List.mem_singleton] at hx
+    subst hx
+    exact ⟨L, l', hL, e3, e3'⟩
+  | .continue_ i, σ, b, a, inLoop, cur, hfr, hlp, _, hp, hc => by
+    simp only [frag1] at hfr
+    obtain ⟨L, hL⟩ := hlp hfr
+    obtain ⟨_, ⟨l, hl⟩⟩ := hp.loopOpen L hL
+    simp only [visitStmt, flowStmt]
+    rw [processContinue_eq σ _ i L hL hp.noTry]
+    obtain ⟨e1, e2, e3, e4⟩ := addContinueNode_effect b i L l hl cur hc hp.allNil
+    refine ⟨⟨by simpa [emit] using e1, fun _ h => (List.not_mem_nil h).elim, ?_, fun _ h => (List.not_mem_nil h).elim,
+      fun _ h => (List.not_mem_nil h).elim, rfl⟩, fun _ h => (List.not_mem_nil h).elim, e4⟩
+    intro x hx
+    simp only [emit, List.mem_singleton] at hx
+    subst hx
+    exact ⟨L, _, hL, e3, by simp⟩
+  | .functionDef i name args body decs rets isAsync, σ, b, a, inLoop, cur, hfr, _, _, hp, hc => by
+    simp only [frag1, Bool.not_eq_true'] at hfr
+    subst hfr
+    simp only [visitStmt, Bool.false_eq_true, if_false, flowStmt]
+    exact post_emit_normal σ b cur [i] hc hp.allNil
+  | .classDef i name bases kws body decs, σ, b, a, inLoop, cur, _, _, _, hp, hc => by
+    simp only [visitStmt, flowStmt]
+    exact post_emit_normal σ b cur [i] hc hp.allNil
+  | .with_ i items body isAsync, σ, b, a, inLoop, cur, hfr, hlp, hnd, hp, hc => by
+    simp only [frag1, Bool.and_eq_true, Bool.not_eq_true'] at hfr
+    obtain ⟨has, hfb⟩ := hfr
+    subst has
+    simp only [visitStmt, Bool.false_eq_true, if_false, flowStmt, stmtKeys'] at hnd hp ⊢
+    have hbe : (basicExprs σ items b a).1 = addOrdinaryNodes b (withItemNodes items) := basicExprs_eq σ items b a
+    have p0 := post_emit_normal σ b cur (withItemNodes items) hc hp.allNil
+    rw [← hbe] at p0
+    have hf0 : Frame [i] b (basicExprs σ items b a).1 := frame_basicExprs _ σ items b a
+    have hnd' := List.nodup_cons.mp hnd
+    have hp1 : Pre σ (keysL body) (basicExprs σ items b a).1 :=
+      Pre.step (K1 := [i]) (by simpa using hp) hf0 (fun k hk h1 => hnd'.1 (by simp only [List.mem_singleton] at h1; subst h1; exact hk)) p0.allNil
+    have ih := lemB_stmts body σ _ (basicExprs σ items b a).2 inLoop _ hfb hlp hnd'.2 hp1 p0.norm
+    have hfb' := frame_visitStmts body σ (basicExprs σ items b a).1 (basicExprs σ items b a).2
+    exact ⟨Pend.seq ((Pend.of_req σ _ _ [] p0.pend.req).transport hfb' hp1.disj) ih.pend, ih.norm, ih.allNil⟩
+  | .if_ i test body orelse, σ, b, a, inLoop, cur, hfr, hlp, hnd, hp, hc => by
+    simp only [frag1, Bool.and_eq_true] at hfr
+    simp only [stmtKeys'] at hnd hp
+    obtain ⟨_, hnd2⟩ := List.nodup_cons.mp hnd
+    obtain ⟨ndb, ndo, _⟩ := List.nodup_append.mp hnd2
+    simp only [visitStmt]
+    exact lemB_if σ i test body orelse b a _ _ cur hnd hp hc
+      (fun b' a' cur' hp' hc' => lemB_stmts body σ b' a' inLoop cur' hfr.1 hlp ndb hp' hc')
+      (fun b' a' cur' hp' hc' => lemB_stmts orelse σ b' a' inLoop cur' hfr.2 hlp ndo hp' hc')
+  | .while_ i test body orelse, σ, b, a, inLoop, cur, hfr, hlp, hnd, hp, hc => by
+    simp only [frag1, Bool.and_eq_true] at hfr
+    simp only [stmtKeys'] at hnd hp
+    obtain ⟨_, hnd2⟩ := List.nodup_cons.mp hnd
+    obtain ⟨ndb, ndo, _⟩ := List.nodup_append.mp hnd2
+    simp only [visitStmt]
+    show Post σ _ (Flow.seq { req := (emit cur test.kidLams).1 ++ cross (emit cur test.kidLams).2 test.id } (loopFlow test.id [] body orelse))
+    exact lemB_loop σ i test.id test.kidLams body orelse b _ _ cur hnd hp hc
+      (fun b' a' cur' hp' hc' => lemB_stmts body (Scope.loop i :: σ) b' a' true cur' hfr.1 (fun _ => ⟨i, rfl⟩) ndb hp' hc')
+      (fun b' a' cur' hp' hc' => lemB_stmts orelse σ b' a' inLoop cur' hfr.2 hlp ndo hp' hc')
+  | .for_ i target iter body orelse extra isAsync, σ, b, a, inLoop, cur, hfr, hlp, hnd, hp, hc => by
+    simp only [frag1, Bool.and_eq_true, Bool.not_eq_true', List.isEmpty_iff] at hfr
+    obtain ⟨⟨⟨has, hex⟩, hfb⟩, hfo⟩ := hfr
+    subst has; subst hex
+    simp only [stmtKeys'] at hnd hp
+    obtain ⟨_, hnd2⟩ := List.nodup_cons.mp hnd
+    obtain ⟨ndb, ndo, _⟩ := List.nodup_append.mp hnd2
+    simp only [visitStmt, Bool.false_eq_true, if_false, List.take, basicExprs]
+    show Post σ _ (Flow.seq { req := (emit cur iter.kidLams).1 ++ cross (emit cur iter.kidLams).2 iter.id } (loopFlow iter.id [] body orelse))
+    exact lemB_loop σ i iter.id iter.kidLams body orelse b _ _ cur hnd hp hc
+      (fun b' a' cur' hp' hc' => lemB_stmts body (Scope.loop i :: σ) b' a' true cur' hfb (fun _ => ⟨i, rfl⟩) ndb hp' hc')
+      (fun b' a' cur' hp' hc' => lemB_stmts orelse σ b' a' inLoop cur' hfo hlp ndo hp' hc')
+  | .try_ .., _, _, _, _, _, hfr, _, _, _, _ => by simp [frag1] at hfr
+  | .handler .., _, _, _, _, _, hfr, _, _, _, _ => by simp [frag1] at hfr
+  | .other .., _, _, _, _, _, hfr, _, _, _, _ => by simp [frag1] at hfr
+  | .delete i ts, σ, b, a, inLoop, cur, _, _, _, hp, hc => by
+    simp only [visitStmt, flowStmt, ← addOrdinaryNodes_snoc]; exact post_emit_normal σ b cur _ hc hp.allNil
+  | .assign i ts v, σ, b, a, inLoop, cur, _, _, _, hp, hc => by
+    simp only [visitStmt, flowStmt, ← addOrdinaryNodes_snoc]; exact post_emit_normal σ b cur _ hc hp.allNil
+  | .augAssign i t op v, σ, b, a, inLoop, cur, _, _, _, hp, hc => by
+    simp only [visitStmt, flowStmt, ← addOrdinaryNodes_snoc]; exact post_emit_normal σ b cur _ hc hp.allNil
+  | .annAssign i t an v sm, σ, b, a, inLoop, cur, _, _, _, hp, hc => by
+    simp only [visitStmt, flowStmt, ← addOrdinaryNodes_snoc]; exact post_emit_normal σ b cur _ hc hp.allNil
+  | .assert_ i t m, σ, b, a, inLoop, cur, _, _, _, hp, hc => by
+    simp only [visitStmt, flowStmt, ← addOrdinaryNodes_snoc]; exact post_emit_normal σ b cur _ hc hp.allNil
+  | .import_ i ns, σ, b, a, inLoop, cur, _, _, _, hp, hc => by
+    simp only [visitStmt, flowStmt, ← addOrdinaryNodes_snoc]; exact post_emit_normal σ b cur _ hc hp.allNil
+  | .importFrom i m ns lv, σ, b, a, inLoop, cur, _, _, _, hp, hc => by
+    simp only [visitStmt, flowStmt, ← addOrdinaryNodes_snoc]; exact post_emit_normal σ b cur _ hc hp.allNil
+  | .global i ns, σ, b, a, inLoop, cur, _, _, _, hp, hc => by
+    simp only [visitStmt, flowStmt, ← addOrdinaryNodes_snoc]; exact post_emit_normal σ b cur _ hc hp.allNil
+  | .nonlocal i ns, σ, b, a, inLoop, cur, _, _, _, hp, hc => by
+    simp only [visitStmt, flowStmt, ← addOrdinaryNodes_snoc]; exact post_emit_normal σ b cur _ hc hp.allNil
+  | .expr i v, σ, b, a, inLoop, cur, _, _, _, hp, hc => by
+    simp only [visitStmt, flowStmt, ← addOrdinaryNodes_snoc]; exact post_emit_normal σ b cur _ hc hp.allNil
+  | .pass i, σ, b, a, inLoop, cur, _, _, _, hp, hc => by
+    simp only [visitStmt, flowStmt, ← addOrdinaryNodes_snoc]; exact post_emit_normal σ b cur _ hc hp.allNil
+
+theorem lemB_stmts : ∀ (ss : List Stmt) (σ : List Scope) (b : B) (a : Acc) (inLoop : Bool) (cur : List Nat),
+    frag1L inLoop ss = true → (inLoop = true → ∃ L, loopOf σ = some L) → (keysL ss).Nodup →
+    Pre σ (keysL ss) b → InLeaves b cur → Post σ (visitStmts σ ss b a).1 (flowBlock ss cur)
+  | [], σ, b, a, inLoop, cur, _, _, _, hp, hc => by
+    simp only [visitStmts, flowBlock]
+    exact ⟨Pend.of_req σ b [] cur (sub_nil _), hc, hp.allNil⟩
+  | s :: ss, σ, b, a, inLoop, cur, hfr, hlp, hnd, hp, hc => by
+    simp only [frag1L, Bool.and_eq_true] at hfr
+    simp only [keysL] at hnd hp
+    have hnd' := List.nodup_append.mp hnd
+    have ih1 := lemB_stmt s σ b a inLoop cur hfr.1 hlp hnd'.1 (hp.sub (fun k hk => List.mem_append.mpr (Or.inl hk))) hc
+    have hf1 := frame_visitStmt s σ b a
+    have hp1 : Pre σ (keysL ss) (visitStmt σ s b a).1 :=
+      Pre.step hp hf1 (fun k hk h1 => (hnd'.2.2 k h1 k hk) rfl) ih1.allNil
+    have ih2 := lemB_stmts ss σ (visitStmt σ s b a).1 (visitStmt σ s b a).2 inLoop (flowStmt s cur).normal hfr.2 hlp hnd'.2.1 hp1 ih1.norm
+    have hf2 := frame_visitStmts ss σ (visitStmt σ s b a).1 (visitStmt σ s b a).2
+    simp only [visitStmts, flowBlock]
+    by_cases hce : cur.isEmpty = true
+    · simp only [hce, if_true]
+      exact ⟨Pend.empty σ _, fun _ h => (List.not_mem_nil h).elim, ih2.allNil⟩
+    · simp only [hce, if_false, Bool.false_eq_true]
+      exact ⟨Pend.seq (ih1.pend.transport hf2 hp1.disj) ih2.pend, ih2.norm, ih2.allNil⟩
+end
+
+
+/-! ### the whole function -/
+
+/-- The root function is in the try-free fragment. -/
+def fnFrag1 : Stmt → Bool
+  | .functionDef _ _ _ body _ _ isAsync => !isAsync && frag1L false body
+  | _ => false
+
+/-- The section keys of the function are pairwise distinct (they are statement ids assigned by the serialiser). -/
+def fnDistinctKeys : Stmt → Bool
+  | .functionDef i _ _ body _ _ _ => nodupB (i :: keysL body)
+  | _ => false
+
+theorem rootGraph_last (i : Nat) (name : String) (args : Expr) (body : List Stmt) (decs rets : List Expr) :
+    (build (.functionDef i name args body decs rets false)).cfgs.getLast? =
+      some (i, (rootBuilder (.functionDef i name args body decs rets false)).1.build) := by
+  simp [build, Acc.finish]
+
+theorem head_addOrdinaryNodes_cons (b : B) (n : Nat) (ns : List Nat) (hb : b.head = none) :
+    (addOrdinaryNodes b (n :: ns)).head = some n := by
+  have h1 : (b.addOrdinaryNode n).head = some n := by
+    simp [B.addOrdinaryNode, B.addNewNode, B.pushNode, hb, Option.or]
+  exact (frame_addOrdinaryNodes [] ns (b.addOrdinaryNode n)).head n h1
+
+theorem fresh_valid : Valid ({} : B) := ⟨by decide, fun k r h => by simp [aget] at h⟩
+
+/-- **Lemma C**: in the try-free fragment the model's graph of the root function passes `pathCheck`. -/
+theorem pathCheck_build (i : Nat) (name : String) (args : Expr) (body : List Stmt) (decs rets : List Expr)
+    (hfr : fnFrag1 (.functionDef i name args body decs rets false) = true)
+    (hdk : fnDistinctKeys (.functionDef i name args body decs rets false) = true) :
+    pathCheck (.functionDef i name args body decs rets false)
+      (rootBuilder (.functionDef i name args body decs rets false)).1.build = true := by
+  simp only [fnFrag1, Bool.not_false, Bool.true_and] at hfr
+  have hnd : (i :: keysL body).Nodup := nodupB_sound _ hdk
+  obtain ⟨hib, hndb⟩ := List.nodup_cons.mp hnd
+  -- the states
+  let σ : List Scope := [Scope.fn i]
+  let b0 : B := ({} : B).enterSection i
+  obtain ⟨s1, s2, s3, s4, s5⟩ := enterSection_effect ({} : B) i
+  let b1 := (basicExpr σ args b0 {}).1
+  have hb1 : b1 = addOrdinaryNodes b0 (args.kidLams ++ [args.id]) := by
+    show (addOrdinaryNodes b0 args.kidLams).addOrdinaryNode args.id = _
+    rw [addOrdinaryNodes_snoc]
+  have ha0 : AllNil b0 := by
+    intro n gs h
+    rw [show b0.finallySections = ({} : B).finallySections from s3] at h
+    simp [aget] at h
+  obtain ⟨e1, e2⟩ := emit_addOrdinaryNodes (args.kidLams ++ [args.id]) b0 [] (fun _ h => (List.not_mem_nil h).elim)
+  rw [← hb1] at e1 e2
+  have ha1 : AllNil b1 := by rw [hb1]; exact allNil_addOrdinaryNodes _ ha0
+  have f01 : Frame [i] ({} : B) b1 :=
+    Frame.trans (B.frame_enterSection _ _ i (by simp)) (frame_basicExpr _ σ args b0 {})
+  have f0b1 : Frame [] b0 b1 := frame_basicExpr _ σ args b0 {}
+  obtain ⟨ex1, hex1, _⟩ := f0b1.exits i (by simp) [] s1
+  have pre1 : Pre σ (keysL body) b1 := by
+    refine ⟨?_, ?_, ?_, ?_, ⟨i, rfl, ex1, hex1⟩, f01.valid fresh_valid, ha1⟩
+    · intro sc hsc; simp only [σ, List.mem_singleton] at hsc; subst hsc; rfl
+    · intro sc hsc; simp only [σ, List.mem_singleton] at hsc; subst hsc; exact hib
+    · intro k _
+      rw [f0b1.condEntry k (by simp), show b0.condEntry = ({} : B).condEntry from s5]
+      simp [aget]
+    · intro L hL; simp [σ, loopOf, enclosingFinally, Scope.isStop] at hL
+  have P := lemB_stmts body σ b1 (basicExpr σ args b0 {}).2 false _ hfr (fun h => by cases h) hndb pre1 e2
+  let b2 := (visitStmts σ body b1 (basicExpr σ args b0 {}).2).1
+  have f12 : Frame (keysL body) b1 b2 := frame_visitStmts body σ b1 _
+  obtain ⟨ex2, hex2, _⟩ := f12.exits i hib ex1 hex1
+  have hv2 : Valid b2 := f12.valid pre1.valid
+  obtain ⟨y1, y2⟩ := exitSection_effect b2 i ex2 hex2 P.allNil hv2
+  have f23 : Frame [i] b2 (b2.exitSection i) := B.frame_exitSection _ b2 i (by simp)
+  -- the final builder is `b2.exitSection i`
+  have hroot : (rootBuilder (.functionDef i name args body decs rets false)).1 = b2.exitSection i := rfl
+  rw [hroot]
+  simp only [pathCheck, Bool.and_eq_true, beq_iff_eq, List.all_eq_true, Bool.or_eq_true, List.contains_eq_mem,
+    decide_eq_true_eq]
+  refine ⟨⟨?_, ?_⟩, ?_⟩
+  · -- entry
+    show (b2.exitSection i).head = (entryNodes _).head?
+    simp only [entryNodes]
+    obtain ⟨n0, r0, hns⟩ : ∃ n0 r0, args.kidLams ++ [args.id] = n0 :: r0 := by
+      cases args.kidLams with
+      | nil => exact ⟨_, _, rfl⟩
+      | cons x r => exact ⟨x, r ++ [args.id], rfl⟩
+    rw [hns]
+    have h1 : b1.head = some n0 := by
+      rw [hb1, hns]
+      exact head_addOrdinaryNodes_cons b0 n0 r0 (by simp [b0, B.enterSection])
+    simpa using f23.head n0 (f12.head n0 h1)
+  · -- required pairs
+    intro p hp
+    show p ∈ (b2.exitSection i).edges
+    simp only [flowFn, Flow.seq, List.mem_append] at hp
+    rcases hp with hp | hp
+    · exact f23.edges p (f12.edges p (e1 p hp))
+    · exact f23.edges p (P.pend.req p hp)
+  · -- final nodes
+    intro x hx
+    left
+    show x ∈ (b2.exitSection i).leafSet
+    simp only [flowFn, Flow.finals, Flow.seq, List.mem_append, List.nil_append] at hx
+    have hret : ∀ x, x ∈ (flowBlock body (emit [] (args.kidLams ++ [args.id])).2).ret → x ∈ ex2 := by
+      intro x hx
+      obtain ⟨F, l, hF, hl, hxl⟩ := P.pend.ret x hx
+      have : F = i := by simpa [σ, fnOf, enclosingFinally, Scope.isStop, Scope.id] using hF.symm
+      subst this
+      rw [hex2] at hl; cases hl; exact hxl
+    have hraise : ∀ x, x ∈ (flowBlock body (emit [] (args.kidLams ++ [args.id])).2).raise → x ∈ ex2 := by
+      intro x hx
+      obtain ⟨F, l, hF, hl, hxl⟩ := P.pend.raise x hx
+      have : F = i := by simpa [σ, fnOf, enclosingFinally, Scope.isStop, Scope.id] using hF.symm
+      subst this
+      rw [hex2] at hl; cases hl; exact hxl
+    rcases hx with hx | hx | hx | hx
+    · exact y2 x (Or.inl (P.norm x hx))
+    · exact y2 x (Or.inr (hret x hx))
+    · exact y2 x (Or.inr (hraise x hx))
+    · rw [P.pend.exempt] at hx; cases hx
 
 end Malt.Cfg
